@@ -11,7 +11,7 @@
    (Proof/Pruning.v: the extreme over the retained operands is the extreme over all of them at every point of the box).
    The condition is evaluated on every tied model by the correspondence check.  The file name is historical: the
    development started with abs. *)
-From Coq Require Import QArith Qreals Reals ZArith Bool List String Lra Lia Permutation Sorting.Sorted.
+From Coq Require Import QArith Qreals Qround Reals ZArith Bool List String Lra Lia Permutation Sorting.Sorted.
 From Rooc Require Import Base.XQ Model.Exp Model.Sem Model.Flatten Model.Simplify Model.Bounds Model.Linearize Model.Spec
   Proof.XQFacts Proof.SemFacts Proof.AListFacts Proof.IntervalSound Proof.BoundsOfSound Proof.AffineSound Proof.LinAffine
   Proof.ExpInd Proof.LinFrame Proof.WellFormed Proof.SimplifyMain Proof.FlattenSound Proof.PropagateSound Proof.PublishSound
@@ -321,6 +321,12 @@ Lemma ctx_val_agree rho sigma c : (forall n, In n (ckeys c) -> rho n = sigma n) 
 Proof. intros A. unfold ctx_val. rewrite (cs_val_agree rho sigma _ A). reflexivity. Qed.
 
 (* ---------- what a linearizer state means, and when it is well formed *)
+(* the names that reach the linear model: declared variables marked used, and every auxiliary *)
+Definition ukeys (s : lst) : list string := map fst (filter (fun p : string * dvar => dv_used (snd p)) (s_dom s)).
+Notation akeys := LinFrame.keys.
+Lemma ukeys_sub s : incl (ukeys s) (akeys s).
+Proof. intros k Hk. unfold ukeys in Hk. apply in_map_iff in Hk as [p [<- Hp]]. apply filter_In in Hp as [Hp _]. apply in_map. exact Hp. Qed.
+
 Definition mrow_holds (sigma : string -> R) (r : midrow) : Prop :=
   cmp_holds (r_cmp r) (cs_val sigma (r_lhs r)) (cval (r_rhs r)).
 Definition dom_sat (D : list (string * dvar)) (sigma : string -> R) : Prop :=
@@ -336,12 +342,13 @@ Definition cgood (K : list string) (c : constr) : Prop :=
 Definition rgood (K : list string) (r : midrow) : Prop :=
   NoDup (map fst (r_lhs r)) /\ incl (map fst (r_lhs r)) K /\ cs_fin (r_lhs r) /\ fin (r_rhs r).
 Definition dom_box (s : lst) : Prop :=
-  forall sigma, dom_sat (s_dom s) sigma -> forall n, In n (keys s) -> in_b (a_get (s_an s) n) (sigma n).
+  forall sigma, dom_sat (s_dom s) sigma -> forall n, In n (ukeys s) -> in_b (a_get (s_an s) n) (sigma n).
 Record INV (s : lst) : Prop := mkINV {
-  inv_nd : NoDup (keys s);
-  inv_used : forall n d, In (n, d) (s_dom s) -> dv_used d = true;
-  inv_q : Forall (cgood (keys s)) (s_queue s);
-  inv_r : Forall (rgood (keys s)) (s_rows s);
+  inv_nd : NoDup (akeys s);
+  (* a declared variable that is not used keeps a non-empty range (it is dropped from the linear model) *)
+  inv_inh : forall n d, In (n, d) (s_dom s) -> dv_used d = false -> exists x, in_dom (dv_type d) x;
+  inv_q : Forall (cgood (ukeys s)) (s_queue s);
+  inv_r : Forall (rgood (ukeys s)) (s_rows s);
   inv_box : dom_box s }.
 
 Lemma cgood_mono K K' c : incl K K' -> cgood K c -> cgood K' c.
@@ -367,11 +374,12 @@ Proof.
   intros A H n d Hin. rewrite <- A; [apply (H n d Hin)|]. apply in_map_iff. exists (n, d). split; [reflexivity|exact Hin].
 Qed.
 (* a well-formed state means the same thing to two assignments that agree on its names *)
-Lemma st_sat_agree s rho sigma : INV s -> (forall n, In n (keys s) -> rho n = sigma n) -> st_sat s rho -> st_sat s sigma.
+Lemma st_sat_agree s rho sigma : INV s -> (forall n, In n (akeys s) -> rho n = sigma n) -> st_sat s rho -> st_sat s sigma.
 Proof.
-  intros I A [Q [Rw D]]. split; [|split].
-  - intros c Hc. eapply sat_constr_agree; [exact (proj1 (Forall_forall _ _) (inv_q s I) c Hc)|exact A|exact (Q c Hc)].
-  - intros r Hr. eapply mrow_agree; [exact (proj1 (Forall_forall _ _) (inv_r s I) r Hr)|exact A|exact (Rw r Hr)].
+  intros I A [Q [Rw D]]. assert (Au : forall n, In n (ukeys s) -> rho n = sigma n) by (intros n Hn; apply A; apply ukeys_sub; exact Hn).
+  split; [|split].
+  - intros c Hc. eapply sat_constr_agree; [exact (proj1 (Forall_forall _ _) (inv_q s I) c Hc)|exact Au|exact (Q c Hc)].
+  - intros r Hr. eapply mrow_agree; [exact (proj1 (Forall_forall _ _) (inv_r s I) r Hr)|exact Au|exact (Rw r Hr)].
   - eapply dom_sat_agree; [exact A|exact D].
 Qed.
 
@@ -385,10 +393,14 @@ Proof.
   intros [E1 [R1 [q1 Q1]]] [E2 [R2 [q2 Q2]]]. split; [eapply ext_trans; eassumption|]. split; [congruence|].
   exists (q2 ++ q1). rewrite Q2, Q1, app_assoc. reflexivity.
 Qed.
-Lemma ext_keys s s' : ext s s' -> incl (keys s) (keys s').
-Proof. intros [[extra D] _ _] k Hk. unfold keys in *. rewrite D, map_app. apply in_or_app. left. exact Hk. Qed.
-Lemma grows_keys s s' : grows s s' -> incl (keys s) (keys s').
+Lemma ext_keys s s' : ext s s' -> incl (ukeys s) (ukeys s').
+Proof. intros [[extra D] _ _] k Hk. unfold ukeys in *. rewrite D, filter_app, map_app. apply in_or_app. left. exact Hk. Qed.
+Lemma grows_keys s s' : grows s s' -> incl (ukeys s) (ukeys s').
 Proof. intros [E _]. apply ext_keys. exact E. Qed.
+Lemma ext_akeys s s' : ext s s' -> incl (akeys s) (akeys s').
+Proof. intros [[extra D] _ _] k Hk. unfold LinFrame.keys in *. rewrite D, map_app. apply in_or_app. left. exact Hk. Qed.
+Lemma grows_akeys s s' : grows s s' -> incl (akeys s) (akeys s').
+Proof. intros [E _]. apply ext_akeys. exact E. Qed.
 Lemma st_sat_back s s' sigma : grows s s' -> st_sat s' sigma -> st_sat s sigma.
 Proof.
   intros [[[extra D] _ _] [Rw [newq Q]]] [HQ [HR HD]]. split; [|split].
@@ -410,8 +422,10 @@ Proof. split; [apply ext_same_dom; reflexivity|]. split; [reflexivity|]. exists 
 Lemma st_sat_set_cnt s cnt sigma : st_sat s sigma -> st_sat (set_cnt s cnt) sigma.
 Proof. intros H. exact H. Qed.
 
-Lemma keys_decl s n t : keys (decl s n t) = keys s ++ [n].
-Proof. unfold keys, decl. cbn [s_dom]. rewrite map_app. reflexivity. Qed.
+Lemma keys_decl s n t : ukeys (decl s n t) = ukeys s ++ [n].
+Proof. unfold ukeys, decl. cbn [s_dom]. rewrite filter_app, map_app. reflexivity. Qed.
+Lemma akeys_decl s n t : akeys (decl s n t) = akeys s ++ [n].
+Proof. unfold LinFrame.keys, decl. cbn [s_dom]. rewrite map_app. reflexivity. Qed.
 Lemma grows_decl s n t : al_mem (s_dom s) n = false -> grows s (decl s n t).
 Proof.
   intros M. split; [|split; [reflexivity|exists []; reflexivity]].
@@ -422,8 +436,8 @@ Proof.
   intros [A B C D E] M. pose proof (grows_decl s n t M) as G. pose proof (grows_keys _ _ G) as IK.
   constructor.
   - destruct G as [[_ ND _] _]. apply ND. exact A.
-  - intros k d Hin. unfold decl in Hin. cbn [s_dom] in Hin. apply in_app_or in Hin as [Hin|[Eq|[]]]; [exact (B k d Hin)|].
-    inversion Eq; subst. reflexivity.
+  - intros k d Hin Hu. unfold decl in Hin. cbn [s_dom] in Hin. apply in_app_or in Hin as [Hin|[Eq|[]]]; [exact (B k d Hin Hu)|].
+    inversion Eq; subst. discriminate.
   - eapply Forall_impl; [|exact C]. intros c. apply cgood_mono. exact IK.
   - eapply Forall_impl; [|exact D]. intros r. apply rgood_mono. exact IK.
   - intros sigma HD k Hk. rewrite keys_decl in Hk. unfold decl in *. cbn [s_dom s_an] in *.
@@ -435,10 +449,10 @@ Proof.
       apply E; [|exact Hk]. intros m d Hin. apply (HD m d). apply in_or_app. left. exact Hin.
 Qed.
 Lemma st_sat_decl s n t sigma x : INV s -> al_mem (s_dom s) n = false -> in_dom t x -> st_sat s sigma ->
-  st_sat (decl s n t) (updR sigma n x) /\ forall k, In k (keys s) -> updR sigma n x k = sigma k.
+  st_sat (decl s n t) (updR sigma n x) /\ forall k, In k (akeys s) -> updR sigma n x k = sigma k.
 Proof.
-  intros I M Hx S. assert (NI : ~ In n (keys s)) by (apply al_mem_false_notin; exact M).
-  assert (A : forall k, In k (keys s) -> sigma k = updR sigma n x k).
+  intros I M Hx S. assert (NI : ~ In n (akeys s)) by (apply al_mem_false_notin; exact M).
+  assert (A : forall k, In k (akeys s) -> sigma k = updR sigma n x k).
   { intros k Hk. rewrite updR_other; [reflexivity|]. intros ->. contradiction. }
   split; [|intros k Hk; symmetry; apply A; exact Hk].
   pose proof (st_sat_agree s sigma _ I A S) as [Q [Rw D]]. split; [exact Q|]. split; [exact Rw|].
@@ -448,20 +462,20 @@ Qed.
 
 Lemma grows_addc s c : grows s (addc s c).
 Proof. split; [apply ext_same_dom; reflexivity|]. split; [reflexivity|]. exists [c]. reflexivity. Qed.
-Lemma INV_addc s c : INV s -> cgood (keys s) c -> INV (addc s c).
+Lemma INV_addc s c : INV s -> cgood (ukeys s) c -> INV (addc s c).
 Proof. intros [A B C D E] G. constructor; try assumption. constructor; assumption. Qed.
 Lemma st_sat_addc s c sigma : st_sat s sigma -> sat_constr sigma c -> st_sat (addc s c) sigma.
 Proof. intros [Q [Rw D]] H. split; [|split; assumption]. intros c' [<-|Hc]; [exact H|exact (Q c' Hc)]. Qed.
 
 (* ---------- the specification of one call of Exp::linearize *)
 Definition lin_spec (e : exp) (r : req) (s : lst) (c : lctx) (s' : lst) : Prop :=
-  INV s' /\ grows s s' /\ ctx_ok (keys s') c /\ ctx_fin c /\
+  INV s' /\ grows s s' /\ ctx_ok (ukeys s') c /\ ctx_fin c /\
   (forall sigma v, st_sat s' sigma -> ev sigma e = Some v -> rel r (ctx_val sigma c) v) /\
   (forall rho v, st_sat s rho -> ev rho e = Some v ->
-     exists sigma, (forall n, In n (keys s) -> sigma n = rho n) /\ st_sat s' sigma /\ ctx_val sigma c = v).
+     exists sigma, (forall n, In n (akeys s) -> sigma n = rho n) /\ st_sat s' sigma /\ ctx_val sigma c = v).
 
 (* a leaf: nothing is emitted and the context has the expression's value *)
-Lemma spec_leaf e r s c : INV s -> ctx_ok (keys s) c -> ctx_fin c ->
+Lemma spec_leaf e r s c : INV s -> ctx_ok (ukeys s) c -> ctx_fin c ->
   (forall sigma v, ev sigma e = Some v -> ctx_val sigma c = v) -> lin_spec e r s c s.
 Proof.
   intros I K F V. split; [exact I|]. split; [apply grows_refl|]. split; [exact K|]. split; [exact F|]. split.
@@ -471,7 +485,7 @@ Qed.
 
 (* one operand *)
 Lemma spec_un e a r ra (f : lctx -> lctx) (g : R -> R) s la s1 :
-  okexp a = true -> incl (xvars a) (keys s) ->
+  okexp a = true -> incl (xvars a) (ukeys s) ->
   (forall sigma v, st_sat s sigma -> ev sigma e = Some v -> exists x, ev sigma a = Some x /\ v = g x) ->
   (forall A x, ctx_ok A x -> ctx_ok A (f x)) ->
   (forall x, ctx_fin x -> ctx_fin (f x) /\ forall sigma, ctx_val sigma (f x) = g (ctx_val sigma x)) ->
@@ -490,7 +504,7 @@ Qed.
 
 (* two operands, left to right *)
 Lemma spec_bin e a b r ra rb (f : lctx -> lctx -> lctx) (g : R -> R -> R) s la s1 lb s2 :
-  INV s -> okexp b = true -> incl (xvars b) (keys s) ->
+  INV s -> okexp b = true -> incl (xvars b) (ukeys s) ->
   (forall sigma v, ev sigma e = Some v -> exists x y, ev sigma a = Some x /\ ev sigma b = Some y /\ v = g x y) ->
   (forall A x y, ctx_ok A x -> ctx_ok A y -> ctx_ok A (f x y)) ->
   (forall x y, ctx_fin x -> ctx_fin y -> ctx_fin (f x y) /\ forall sigma, ctx_val sigma (f x y) = g (ctx_val sigma x) (ctx_val sigma y)) ->
@@ -507,10 +521,10 @@ Proof.
   - intros rho v S Hv. destruct (Hev rho v Hv) as [x [y [Ex [Ey ->]]]].
     destruct (C1 rho x S Ex) as [sg1 [A1 [S1' V1]]].
     assert (Ey1 : ev sg1 b = Some y).
-    { rewrite <- Ey. apply ev_agree; [exact Ob|]. intros n Hn. apply A1, Ib, Hn. }
+    { rewrite <- Ey. apply ev_agree; [exact Ob|]. intros n Hn. apply A1, ukeys_sub, Ib, Hn. }
     destruct (C2 sg1 y S1' Ey1) as [sg2 [A2 [S2' V2]]]. exists sg2.
-    split; [intros n Hn; rewrite A2 by (apply IK1; exact Hn); apply A1; exact Hn|]. split; [exact S2'|].
-    rewrite Vf, V2. f_equal. rewrite <- V1. apply ctx_val_agree. intros n Hn. apply A2. destruct K1 as [_ K1]. apply K1. exact Hn.
+    split; [intros n Hn; rewrite A2 by (apply (grows_akeys _ _ G1); exact Hn); apply A1; exact Hn|]. split; [exact S2'|].
+    rewrite Vf, V2. f_equal. rewrite <- V1. apply ctx_val_agree. intros n Hn. apply A2. apply ukeys_sub. destruct K1 as [_ K1]. apply K1. exact Hn.
 Qed.
 
 Lemma through_scale_div r q : Q2R q <> 0 ->
@@ -599,7 +613,7 @@ Section AbsArm.
   Let sA := addc (addc (decl (set_cnt s1 cnt) v T) c1) c2.
   Hypothesis Ox : okexp x = true.
   Hypothesis I0 : INV s0.
-  Hypothesis Ix : incl (xvars x) (keys s0).
+  Hypothesis Ix : incl (xvars x) (ukeys s0).
   Hypothesis Sx : lin_spec x Exact s0 inner_c s1.
   Hypothesis Mv : al_mem (s_dom s1) v = false.
 
@@ -610,26 +624,26 @@ Section AbsArm.
   Qed.
 
   Lemma abs_core :
-    INV sA /\ grows s1 sA /\ In v (keys sA) /\ incl (keys s1) (keys sA) /\
+    INV sA /\ grows s1 sA /\ In v (ukeys sA) /\ incl (ukeys s1) (ukeys sA) /\
     (forall sigma t, st_sat sA sigma -> ev sigma x = Some t ->
        sigma v >= t /\ sigma v >= - t /\ in_b ib t /\ ev sigma inner = Some t) /\
     (forall rho t, st_sat s0 rho -> ev rho x = Some t ->
-       exists sigma, (forall n, In n (keys s0) -> sigma n = rho n) /\ st_sat sA sigma /\ sigma v = Rabs t /\
+       exists sigma, (forall n, In n (akeys s0) -> sigma n = rho n) /\ st_sat sA sigma /\ sigma v = Rabs t /\
                      ev sigma inner = Some t /\ in_b ib t).
   Proof.
     destruct Sx as [I1 [G1 [K1 [F1 [S1 C1]]]]].
     set (sB := decl (set_cnt s1 cnt) v T).
     assert (IB : INV sB) by (apply INV_decl; [apply INV_set_cnt; exact I1|exact Mv]).
     assert (GB : grows s1 sB) by (eapply grows_trans; [apply grows_set_cnt|apply grows_decl; exact Mv]).
-    assert (KB : keys sB = keys s1 ++ [v]) by (unfold sB; rewrite keys_decl; reflexivity).
-    assert (Hv : In v (keys sB)) by (rewrite KB; apply in_or_app; right; left; reflexivity).
-    assert (Hin : incl (ckeys inner_c) (keys sB)) by (intros k Hk; rewrite KB; apply in_or_app; left; destruct K1 as [_ K1]; apply K1; exact Hk).
+    assert (KB : ukeys sB = ukeys s1 ++ [v]) by (unfold sB; rewrite keys_decl; reflexivity).
+    assert (Hv : In v (ukeys sB)) by (rewrite KB; apply in_or_app; right; left; reflexivity).
+    assert (Hin : incl (ckeys inner_c) (ukeys sB)) by (intros k Hk; rewrite KB; apply in_or_app; left; destruct K1 as [_ K1]; apply K1; exact Hk).
     assert (Pin : plainA inner = true) by (apply plainA_ctx; exact F1).
-    assert (G1c : cgood (keys sB) c1).
+    assert (G1c : cgood (ukeys sB) c1).
     { unfold c1, mk_c, cgood. cbn [c_assert c_lhs c_rhs plainA xvars]. repeat split; try assumption; try reflexivity.
       - intros k [<-|[]]. exact Hv.
       - unfold inner. rewrite xvars_ctx. exact Hin. }
-    assert (G2c : cgood (keys sB) c2).
+    assert (G2c : cgood (ukeys sB) c2).
     { unfold c2, mk_c, cgood. cbn [c_assert c_lhs c_rhs plainA xvars]. repeat split; try assumption; try reflexivity.
       - intros k [<-|[]]. exact Hv.
       - unfold inner. rewrite xvars_ctx. exact Hin. }
@@ -653,10 +667,10 @@ Section AbsArm.
       set (sigma := updR sg1 v (Rabs t)) in *.
       assert (Ei : ev sigma inner = Some t).
       { unfold inner. rewrite (context_to_exp_sound sigma inner_c F1). f_equal. rewrite <- V1. apply ctx_val_agree.
-        intros n Hn. apply AB. destruct K1 as [_ K1]. apply K1. exact Hn. }
+        intros n Hn. apply AB. apply ukeys_sub. destruct K1 as [_ K1]. apply K1. exact Hn. }
       assert (Ev : sigma v = Rabs t) by (unfold sigma; apply updR_same).
       destruct (abs_onesided_tight t) as [T1 T2].
-      exists sigma. split; [intros n Hn; rewrite AB by (apply (grows_keys _ _ G1); exact Hn); apply A1; exact Hn|].
+      exists sigma. split; [intros n Hn; rewrite AB by (apply (grows_akeys _ _ G1); exact Hn); apply A1; exact Hn|].
       split; [|split; [exact Ev|split; [exact Ei|exact Bt]]].
       apply st_sat_addc; [apply st_sat_addc; [exact SB|]|].
       + exists (sigma v), t. unfold c1, mk_c. cbn [c_lhs c_rhs c_cmp cmp_holds]. split; [rewrite ev_var; reflexivity|]. rewrite Ev. split; [exact Ei|exact T1].
@@ -679,7 +693,7 @@ Section AbsArm2.
   Let sA := addc (addc (decl (set_cnt s1 cnt) v T) c1) c2.
   Hypothesis Ox : okexp x = true.
   Hypothesis I0 : INV s0.
-  Hypothesis Ix : incl (xvars x) (keys s0).
+  Hypothesis Ix : incl (xvars x) (ukeys s0).
   Hypothesis Sx : lin_spec x Exact s0 inner_c s1.
   Hypothesis Mv : al_mem (s_dom s1) v = false.
 
@@ -720,19 +734,19 @@ Section AbsArm2.
     set (sP := decl sA p TBoolean).
     assert (IP : INV sP) by (apply INV_decl; assumption).
     assert (GP : grows sA sP) by (apply grows_decl; exact Mp).
-    assert (KP : keys sP = keys sA ++ [p]) by (unfold sP; rewrite keys_decl; reflexivity).
-    assert (HvP : In v (keys sP)) by (rewrite KP; apply in_or_app; left; exact HvA).
-    assert (HpP : In p (keys sP)) by (rewrite KP; apply in_or_app; right; left; reflexivity).
-    assert (Hin : incl (ckeys inner_c) (keys sP)).
+    assert (KP : ukeys sP = ukeys sA ++ [p]) by (unfold sP; rewrite keys_decl; reflexivity).
+    assert (HvP : In v (ukeys sP)) by (rewrite KP; apply in_or_app; left; exact HvA).
+    assert (HpP : In p (ukeys sP)) by (rewrite KP; apply in_or_app; right; left; reflexivity).
+    assert (Hin : incl (ckeys inner_c) (ukeys sP)).
     { intros k Hk. rewrite KP. apply in_or_app. left. apply IKA. destruct K1 as [_ K1]. apply K1. exact Hk. }
     assert (Pin : plainA inner = true) by (apply plainA_ctx; exact F1).
-    assert (G3 : cgood (keys sP) c3).
+    assert (G3 : cgood (ukeys sP) c3).
     { unfold c3, mk_c, cgood, sub_exp, mul_exp. rewrite Elo. cbn [xq_mul c_assert c_lhs c_rhs plainA xvars]. rewrite Pin.
       repeat split; try reflexivity.
       - intros k [<-|[]]. exact HvP.
       - intros k Hk. apply in_app_or in Hk as [Hk|Hk]; [unfold inner in Hk; rewrite xvars_ctx in Hk; apply Hin; exact Hk|].
         cbn in Hk. destruct Hk as [<-|[]]. exact HpP. }
-    assert (G4 : cgood (keys sP) c4).
+    assert (G4 : cgood (ukeys sP) c4).
     { unfold c4, mk_c, cgood, add_exp, mul_exp. rewrite Ehi. cbn [xq_mul c_assert c_lhs c_rhs plainA xvars]. rewrite Pin.
       repeat split; try reflexivity.
       - intros k [<-|[]]. exact HvP.
@@ -765,12 +779,12 @@ Section AbsArm2.
       destruct (abs_exact_tight t (Q2R ql) (Q2R qh)) as [pv [Bp [_ [_ [T3 [T4 _]]]]]]; [split; assumption|lra|lra|].
       destruct (st_sat_decl sA p TBoolean sgA pv IA Mp Bp SA') as [SP AP].
       set (sigma := updR sgA p pv) in *.
-      assert (Evs : sigma v = Rabs t) by (rewrite AP by exact HvA; exact Ev).
+      assert (Evs : sigma v = Rabs t) by (rewrite AP by (apply ukeys_sub; exact HvA); exact Ev).
       assert (Eis : ev sigma inner = Some t).
       { rewrite <- Ei. apply ev_agree; [apply plainA_okexp; exact Pin|]. intros n Hn. unfold inner in Hn. rewrite xvars_ctx in Hn.
-        apply AP. apply IKA. destruct K1 as [_ K1]. apply K1. exact Hn. }
+        apply AP. apply ukeys_sub. apply IKA. destruct K1 as [_ K1]. apply K1. exact Hn. }
       assert (Eps : sigma p = pv) by (unfold sigma; apply updR_same).
-      exists sigma. split; [intros n Hn; rewrite AP by (apply IKA; apply (grows_keys _ _ G1); exact Hn); apply A; exact Hn|].
+      exists sigma. split; [intros n Hn; rewrite AP by (apply (grows_akeys _ _ GA); apply (grows_akeys _ _ G1); exact Hn); apply A; exact Hn|].
       split; [|rewrite (proj2 (from_var_one sigma v)); exact Evs].
       apply st_sat_addc; [apply st_sat_addc; [exact SP|]|].
       + eexists _, _. unfold c3, mk_c. cbn [c_lhs c_rhs c_cmp]. rewrite Elo. cbn [xq_mul].
@@ -787,11 +801,11 @@ Proof.
   induction cs as [|c cs IH]; intros s; [repeat split; reflexivity|]. cbn [addcs fold_left]. destruct (IH (addc s c)) as [A [B [C D]]].
   unfold addcs in *. rewrite A, B, C, D. cbn [addc s_dom s_an s_rows s_queue rev]. rewrite <- app_assoc. repeat split; reflexivity.
 Qed.
-Lemma keys_addcs s cs : keys (addcs s cs) = keys s.
-Proof. unfold keys. rewrite (proj1 (dom_addcs cs s)). reflexivity. Qed.
+Lemma keys_addcs s cs : ukeys (addcs s cs) = ukeys s.
+Proof. unfold ukeys. rewrite (proj1 (dom_addcs cs s)). reflexivity. Qed.
 Lemma grows_addcs : forall cs s, grows s (addcs s cs).
 Proof. induction cs as [|c cs IH]; intros s; [apply grows_refl|]. cbn [addcs fold_left]. eapply grows_trans; [apply grows_addc|apply IH]. Qed.
-Lemma INV_addcs : forall cs s, INV s -> Forall (cgood (keys s)) cs -> INV (addcs s cs).
+Lemma INV_addcs : forall cs s, INV s -> Forall (cgood (ukeys s)) cs -> INV (addcs s cs).
 Proof.
   induction cs as [|c cs IH]; intros s I F; [exact I|]. inversion F as [|? ? Fc Fcs]; subst. cbn [addcs fold_left].
   apply IH; [apply INV_addc; assumption|exact Fcs].
@@ -818,44 +832,44 @@ Proof. induction l as [|x l IH]; intros s; [reflexivity|]. cbn [fold_left flat_m
 Definition decls (s : lst) (ns : list string) (t : vtype) : lst := fold_left (fun s k => decl s k t) ns s.
 Lemma iterM_decl {A} (nm : A -> string) t : forall l s u s',
   iterM (fun x => declare_variable (nm x) t) l s = inr (u, s') ->
-  s' = decls s (map nm l) t /\ NoDup (map nm l) /\ (forall k, In k (map nm l) -> ~ In k (keys s)).
+  s' = decls s (map nm l) t /\ NoDup (map nm l) /\ (forall k, In k (map nm l) -> ~ In k (akeys s)).
 Proof.
   induction l as [|x l IH]; intros s u s' H.
   - inversion H; subst. split; [reflexivity|]. split; [constructor|intros k []].
   - cbn [iterM] in H. unfold bind in H. unfold declare_variable at 1 in H. destruct (al_mem (s_dom s) (nm x)) eqn:Mx; [discriminate|].
     fold (decl s (nm x) t) in H. destruct (IH _ _ _ H) as [E [ND Fr]]. cbn [map]. split; [exact E|]. split.
-    + constructor; [|exact ND]. intros Hin. apply (Fr _ Hin). rewrite keys_decl. apply in_or_app. right. left. reflexivity.
-    + intros k [<-|Hk]; [apply al_mem_false_notin; exact Mx|]. intros Hin. apply (Fr _ Hk). rewrite keys_decl. apply in_or_app. left. exact Hin.
+    + constructor; [|exact ND]. intros Hin. apply (Fr _ Hin). rewrite akeys_decl. apply in_or_app. right. left. reflexivity.
+    + intros k [<-|Hk]; [apply al_mem_false_notin; exact Mx|]. intros Hin. apply (Fr _ Hk). rewrite akeys_decl. apply in_or_app. left. exact Hin.
 Qed.
-Lemma notin_mem_false s k : ~ In k (keys s) -> al_mem (s_dom s) k = false.
+Lemma notin_mem_false s k : ~ In k (akeys s) -> al_mem (s_dom s) k = false.
 Proof.
   intros H. destruct (al_mem (s_dom s) k) eqn:E; [|reflexivity]. exfalso. apply H. unfold al_mem in E.
   destruct (al_get (s_dom s) k) as [d|] eqn:G; [|discriminate]. apply al_get_In in G. apply in_map_iff. exists (k, d). split; [reflexivity|exact G].
 Qed.
-Lemma in_keys_mem s k : In k (keys s) -> al_mem (s_dom s) k = true.
+Lemma in_keys_mem s k : In k (akeys s) -> al_mem (s_dom s) k = true.
 Proof. intros H. destruct (al_mem (s_dom s) k) eqn:E; [reflexivity|]. exfalso. exact (al_mem_false_notin _ _ E H). Qed.
-Lemma keys_decls : forall ns s t, keys (decls s ns t) = keys s ++ ns.
+Lemma keys_decls : forall ns s t, ukeys (decls s ns t) = ukeys s ++ ns.
 Proof.
   induction ns as [|k ns IH]; intros s t; [rewrite app_nil_r; reflexivity|]. cbn [decls fold_left]. fold (decls (decl s k t) ns t).
   rewrite IH, keys_decl, <- app_assoc. reflexivity.
 Qed.
-Lemma decls_ok : forall ns s t, INV s -> NoDup ns -> (forall k, In k ns -> ~ In k (keys s)) ->
+Lemma decls_ok : forall ns s t, INV s -> NoDup ns -> (forall k, In k ns -> ~ In k (akeys s)) ->
   INV (decls s ns t) /\ grows s (decls s ns t).
 Proof.
   induction ns as [|k ns IH]; intros s t I ND Fr; [split; [exact I|apply grows_refl]|]. inversion ND as [|? ? Nk ND']; subst.
   cbn [decls fold_left]. fold (decls (decl s k t) ns t).
   assert (Mk : al_mem (s_dom s) k = false) by (apply notin_mem_false; apply Fr; left; reflexivity).
   destruct (IH (decl s k t) t (INV_decl s k t I Mk) ND') as [I' G'].
-  { intros k' Hk' Hin. rewrite keys_decl in Hin. apply in_app_or in Hin as [Hin|[<-|[]]]; [exact (Fr k' (or_intror Hk') Hin)|contradiction]. }
+  { intros k' Hk' Hin. rewrite akeys_decl in Hin. apply in_app_or in Hin as [Hin|[<-|[]]]; [exact (Fr k' (or_intror Hk') Hin)|contradiction]. }
   split; [exact I'|eapply grows_trans; [apply grows_decl; exact Mk|exact G']].
 Qed.
 Definition updL (sigma : string -> R) (ns : list string) (vals : string -> R) : string -> R :=
   fun k => if set_mem ns k then vals k else sigma k.
-Lemma decls_sat : forall ns s t sigma vals, INV s -> NoDup ns -> (forall k, In k ns -> ~ In k (keys s)) ->
+Lemma decls_sat : forall ns s t sigma vals, INV s -> NoDup ns -> (forall k, In k ns -> ~ In k (akeys s)) ->
   (forall k, In k ns -> in_dom t (vals k)) -> st_sat s sigma -> st_sat (decls s ns t) (updL sigma ns vals).
 Proof.
   intros ns s t sigma vals I ND Fr Hv S.
-  assert (A : forall k, In k (keys s) -> sigma k = updL sigma ns vals k).
+  assert (A : forall k, In k (akeys s) -> sigma k = updL sigma ns vals k).
   { intros k Hk. unfold updL. destruct (set_mem ns k) eqn:E; [|reflexivity]. apply set_mem_In in E. exfalso. exact (Fr k E Hk). }
   pose proof (st_sat_agree s sigma _ I A S) as [Q [Rw D]].
   assert (Hq : s_queue (decls s ns t) = s_queue s /\ s_rows (decls s ns t) = s_rows s /\ s_dom (decls s ns t) = s_dom s ++ map (fun k => (k, mkDV t true)) ns).
@@ -945,9 +959,9 @@ Qed.
 Lemma ev_Num_inv sigma x v : ev sigma (Num x) = Some v -> exists q, x = Fin q /\ v = Q2R q.
 Proof. apply evg_Num_inv. Qed.
 
-Lemma grows_aget s s' k : grows s s' -> In k (keys s) -> a_get (s_an s') k = a_get (s_an s) k.
-Proof. intros [[_ _ B] _] Hk. apply B. apply in_keys_mem. exact Hk. Qed.
-Lemma bounds_of_grows s s' e : grows s s' -> incl (xvars e) (keys s) -> bounds_of (s_an s') e = bounds_of (s_an s) e.
+Lemma grows_aget s s' k : grows s s' -> In k (ukeys s) -> a_get (s_an s') k = a_get (s_an s) k.
+Proof. intros [[_ _ B] _] Hk. apply B. apply in_keys_mem. apply ukeys_sub. exact Hk. Qed.
+Lemma bounds_of_grows s s' e : grows s s' -> incl (xvars e) (ukeys s) -> bounds_of (s_an s') e = bounds_of (s_an s) e.
 Proof. intros G Ix. apply bounds_of_ext. intros k Hk. apply (grows_aget s s' k G). apply Ix. exact Hk. Qed.
 
 Lemma tot_list_max l : tot (Max l) -> Forall tot l.
@@ -1044,7 +1058,7 @@ Lemma fold_min_eq M w ws : (forall x, In x (w :: ws) -> M <= x) -> In M (w :: ws
 Proof. intros Hle Hin. apply Rle_antisym; [apply fold_min_le; exact Hin|apply Hle; apply fold_min_in]. Qed.
 
 (* the dominated-operand pruning keeps the value of the extreme, at every point of the state *)
-Lemma prune_box l s sigma vs : INV s -> forallb okexp l = true -> incl (flat_map xvars l) (keys s) -> st_sat s sigma ->
+Lemma prune_box l s sigma vs : INV s -> forallb okexp l = true -> incl (flat_map xvars l) (ukeys s) -> st_sat s sigma ->
   evlist sigma false l = Some vs ->
   forall i, (i < List.length (map (bounds_of (s_an s)) l))%nat -> in_b (nth i (map (bounds_of (s_an s)) l) b_unbounded) (nth i vs 0).
 Proof.
@@ -1054,7 +1068,7 @@ Proof.
   apply (bounds_of_on (s_an s) sigma); [exact (proj1 (forallb_forall _ _) Ok _ He)| |exact (evlist_nth sigma l vs i El Hi)].
   intros k Hk. apply (inv_box s I sigma D). apply Ix. apply in_flat_map. eexists. split; [exact He|exact Hk].
 Qed.
-Lemma prune_value_max l s : INV s -> forallb okexp l = true -> incl (flat_map xvars l) (keys s) -> Forall tot l ->
+Lemma prune_value_max l s : INV s -> forallb okexp l = true -> incl (flat_map xvars l) (ukeys s) -> Forall tot l ->
   let rexps := map (fun i => nth i l (Num NaN)) (retained_indices KMax (map (bounds_of (s_an s)) l)) in
   forall sigma, st_sat s sigma -> ev sigma (Max l) = ev sigma (Max rexps).
 Proof.
@@ -1073,7 +1087,7 @@ Proof.
   - change (nth i0 (v0 :: vs') 0 :: map (fun i => nth i (v0 :: vs') 0) idx) with (map (fun i => nth i (v0 :: vs') 0) (i0 :: idx)).
     apply in_map_iff. exists r. split; [exact Er|exact Hr].
 Qed.
-Lemma prune_value_min l s : INV s -> forallb okexp l = true -> incl (flat_map xvars l) (keys s) -> Forall tot l ->
+Lemma prune_value_min l s : INV s -> forallb okexp l = true -> incl (flat_map xvars l) (ukeys s) -> Forall tot l ->
   let rexps := map (fun i => nth i l (Num NaN)) (retained_indices KMin (map (bounds_of (s_an s)) l)) in
   forall sigma, st_sat s sigma -> ev sigma (Min l) = ev sigma (Min rexps).
 Proof.
@@ -1095,16 +1109,16 @@ Qed.
 
 Section Extreme.
   Variable n : nat.
-  Hypothesis IHn : forall e r s c s', okexp e = true -> INV s -> incl (xvars e) (keys s) -> tot e ->
+  Hypothesis IHn : forall e r s c s', okexp e = true -> INV s -> incl (xvars e) (ukeys s) -> tot e ->
     lin n e r s = inr (c, s') -> lin_spec e r s c s'.
 
   Lemma mapMM_ok oreq : forall es s ops s',
-    forallb okexp es = true -> INV s -> incl (flat_map xvars es) (keys s) -> Forall tot es ->
+    forallb okexp es = true -> INV s -> incl (flat_map xvars es) (ukeys s) -> Forall tot es ->
     mapMM (fun e => bind (lin n e oreq) (fun v => ret (context_to_exp v))) es s = inr (ops, s') ->
-    exists cs, ops = map context_to_exp cs /\ List.length cs = List.length es /\ INV s' /\ grows s s' /\ Forall (ctx_ok (keys s')) cs /\ Forall ctx_fin cs /\
+    exists cs, ops = map context_to_exp cs /\ List.length cs = List.length es /\ INV s' /\ grows s s' /\ Forall (ctx_ok (ukeys s')) cs /\ Forall ctx_fin cs /\
       (forall sigma vs, st_sat s' sigma -> evlist sigma false es = Some vs -> Forall2 (fun c v => rel oreq (ctx_val sigma c) v) cs vs) /\
       (forall rho vs, st_sat s rho -> evlist rho false es = Some vs ->
-         exists sigma, (forall k, In k (keys s) -> sigma k = rho k) /\ st_sat s' sigma /\ Forall2 (fun c v => ctx_val sigma c = v) cs vs).
+         exists sigma, (forall k, In k (akeys s) -> sigma k = rho k) /\ st_sat s' sigma /\ Forall2 (fun c v => ctx_val sigma c = v) cs vs).
   Proof.
     induction es as [|x xs IH]; intros s ops s' O I Ix T H.
     - inversion H; subst. exists []. split; [reflexivity|]. split; [reflexivity|]. split; [exact I|]. split; [apply grows_refl|]. split; [constructor|]. split; [constructor|]. split.
@@ -1114,8 +1128,8 @@ Section Extreme.
       unfold bind at 1 in H. destruct (mapMM _ xs s1) as [er|[ys s2]] eqn:E2; [discriminate|]. inversion H; subst ops s'; clear H.
       cbn [forallb] in O. apply andb_true_iff in O as [Ox Oxs]. inversion T as [|? ? Tx Txs]; subst.
       cbn [flat_map] in Ix.
-      assert (Ixx : incl (xvars x) (keys s)) by (intros k Hk; apply Ix; apply in_or_app; left; exact Hk).
-      assert (Ixs : incl (flat_map xvars xs) (keys s)) by (intros k Hk; apply Ix; apply in_or_app; right; exact Hk).
+      assert (Ixx : incl (xvars x) (ukeys s)) by (intros k Hk; apply Ix; apply in_or_app; left; exact Hk).
+      assert (Ixs : incl (flat_map xvars xs) (ukeys s)) by (intros k Hk; apply Ix; apply in_or_app; right; exact Hk).
       destruct (IHn _ _ _ _ _ Ox I Ixx Tx E1) as [I1 [G1 [K1 [F1 [S1 C1]]]]].
       destruct (IH s1 ys s2 Oxs I1 (fun k Hk => grows_keys _ _ G1 k (Ixs k Hk)) Txs E2) as [cs [Eo [Ln [I2 [G2 [K2 [F2 [S2 C2]]]]]]]].
       exists (c1 :: cs). split; [cbn [map]; rewrite Eo; reflexivity|]. split; [cbn [List.length]; rewrite Ln; reflexivity|]. split; [exact I2|]. split; [eapply grows_trans; eassumption|].
@@ -1128,10 +1142,10 @@ Section Extreme.
         destruct (evlist rho false xs) as [vs'|] eqn:El; [|discriminate]. inversion E; subst vs.
         destruct (C1 rho vx S Ex) as [sg1 [A1 [S1' V1]]].
         assert (El1 : evlist sg1 false xs = Some vs').
-        { rewrite <- El. apply evlist_agree_ok; [exact Oxs|]. intros k Hk. apply A1. apply Ixs. exact Hk. }
+        { rewrite <- El. apply evlist_agree_ok; [exact Oxs|]. intros k Hk. apply A1. apply ukeys_sub. apply Ixs. exact Hk. }
         destruct (C2 sg1 vs' S1' El1) as [sg2 [A2 [S2' V2]]]. exists sg2.
-        split; [intros k Hk; rewrite A2 by (apply (grows_keys _ _ G1); exact Hk); apply A1; exact Hk|]. split; [exact S2'|].
-        constructor; [|exact V2]. rewrite <- V1. apply ctx_val_agree. intros k Hk. apply A2. destruct K1 as [_ K1]. apply K1. exact Hk.
+        split; [intros k Hk; rewrite A2 by (apply (grows_akeys _ _ G1); exact Hk); apply A1; exact Hk|]. split; [exact S2'|].
+        constructor; [|exact V2]. rewrite <- V1. apply ctx_val_agree. intros k Hk. apply A2. apply ukeys_sub. destruct K1 as [_ K1]. apply K1. exact Hk.
   Qed.
   Lemma ev_max_inv sigma l v : ev sigma (Max l) = Some v -> exists v0 vs, evlist sigma false l = Some (v0 :: vs) /\ v = fold_left Rmax vs v0.
   Proof.
@@ -1158,7 +1172,7 @@ Section Extreme.
     Hypothesis Oe : forallb okexp exps = true.
     Hypothesis Ne : exps <> [].
     Hypothesis I0 : INV s0.
-    Hypothesis Ix : incl (flat_map xvars exps) (keys s0).
+    Hypothesis Ix : incl (flat_map xvars exps) (ukeys s0).
     Hypothesis Tt : Forall tot exps.
     Hypothesis Mv : al_mem (s_dom s0) var = false.
 
@@ -1167,7 +1181,7 @@ Section Extreme.
       intros [_ [_ D]] Hv. apply (bounds_of_on (s_an s0) rho (Max exps) v); [|intros k Hk; rewrite xvars_Max in Hk; apply (inv_box s0 I0 rho D); apply Ix; exact Hk|exact Hv].
       rewrite okexp_Max. destruct exps; [contradiction|exact Oe].
     Qed.
-    Lemma max_setup : INV s1 /\ grows s0 s1 /\ In var (keys s1) /\ incl (flat_map xvars exps) (keys s1).
+    Lemma max_setup : INV s1 /\ grows s0 s1 /\ In var (ukeys s1) /\ incl (flat_map xvars exps) (ukeys s1).
     Proof.
       assert (I1 : INV s1) by (apply INV_decl; [apply INV_set_cnt; exact I0|exact Mv]).
       assert (G : grows s0 s1) by (eapply grows_trans; [apply grows_set_cnt|apply grows_decl; exact Mv]).
@@ -1181,9 +1195,9 @@ Section Extreme.
     Proof.
       intros HM. destruct max_setup as [I1 [G01 [Hv1 Ix1]]].
       destruct (mapMM_ok PreferLower exps s1 ops s2 Oe I1 Ix1 Tt HM) as [cs [Eo [_ [I2 [G12 [K2 [F2 [S2 C2]]]]]]]].
-      assert (Hv2 : In var (keys s2)) by (apply (grows_keys _ _ G12); exact Hv1).
+      assert (Hv2 : In var (ukeys s2)) by (apply (grows_keys _ _ G12); exact Hv1).
       set (rows := map (fun o => mk_c (Var var) Ge o) ops). set (s3 := addcs s2 rows).
-      assert (Gr : Forall (cgood (keys s2)) rows) by (unfold rows; rewrite Eo; apply ops_cgood; assumption).
+      assert (Gr : Forall (cgood (ukeys s2)) rows) by (unfold rows; rewrite Eo; apply ops_cgood; assumption).
       assert (Hrow : forall c, In c cs -> In (mk_c (Var var) Ge (context_to_exp c)) rows).
       { intros c Hc. unfold rows. rewrite Eo, map_map. apply in_map_iff. exists c. split; [reflexivity|exact Hc]. }
       split; [apply INV_addcs; assumption|]. split; [eapply grows_trans; [exact G01|eapply grows_trans; [exact G12|apply grows_addcs]]|].
@@ -1200,10 +1214,10 @@ Section Extreme.
         destruct (st_sat_decl (set_cnt s0 cnt) var T rho Mx (INV_set_cnt _ _ I0) Mv Bm S) as [S1' A1]. fold s1 in S1'.
         set (sg1 := updR rho var Mx) in *.
         assert (El1 : evlist sg1 false exps = Some (v0 :: vs)).
-        { rewrite <- El. apply evlist_agree_ok; [exact Oe|]. intros k Hk. apply A1. apply Ix. exact Hk. }
+        { rewrite <- El. apply evlist_agree_ok; [exact Oe|]. intros k Hk. apply A1. apply ukeys_sub. apply Ix. exact Hk. }
         destruct (C2 sg1 _ S1' El1) as [sg2 [A2 [S2' V2]]].
-        assert (Ev : sg2 var = Mx) by (rewrite A2 by exact Hv1; apply updR_same).
-        exists sg2. split; [intros k Hk; rewrite A2 by (apply (grows_keys _ _ G01); exact Hk); apply A1; exact Hk|].
+        assert (Ev : sg2 var = Mx) by (rewrite A2 by (apply ukeys_sub; exact Hv1); apply updR_same).
+        exists sg2. split; [intros k Hk; rewrite A2 by (apply (grows_akeys _ _ G01); exact Hk); apply A1; exact Hk|].
         split; [|rewrite (proj2 (from_var_one sg2 var)); exact Ev].
         apply st_sat_addcs; [exact S2'|]. intros c Hc. unfold rows in Hc. rewrite Eo, map_map in Hc. apply in_map_iff in Hc as [cx [<- Hcx]].
         destruct (Forall2_in_left _ _ _ _ V2 Hcx) as [w [Hw Ew]].
@@ -1239,10 +1253,10 @@ Section Extreme.
       assert (Lb : List.length obs = m) by (unfold obs; rewrite map_length; reflexivity).
       assert (Ls : List.length sels = m) by (rewrite Esel, map_length; exact Ln).
       assert (Mpos : (0 < m)%nat) by (unfold m; destruct exps; [contradiction|cbn; lia]).
-      assert (K3 : keys s3 = keys s2 ++ ns) by (rewrite E3; apply keys_decls).
-      assert (Hv2 : In var (keys s2)) by (apply (grows_keys _ _ G12); exact Hv1).
-      assert (Hv3 : In var (keys s3)) by (rewrite K3; apply in_or_app; left; exact Hv2).
-      assert (Nvar : ~ In var ns) by (intros H; exact (Frn var H Hv2)).
+      assert (K3 : ukeys s3 = ukeys s2 ++ ns) by (rewrite E3; apply keys_decls).
+      assert (Hv2 : In var (ukeys s2)) by (apply (grows_keys _ _ G12); exact Hv1).
+      assert (Hv3 : In var (ukeys s3)) by (rewrite K3; apply in_or_app; left; exact Hv2).
+      assert (Nvar : ~ In var ns) by (intros H; exact (Frn var H (ukeys_sub _ _ Hv2))).
       set (zipped := combine (combine ops obs) sels).
       (* what a tuple is *)
       assert (Htup : forall t, In t zipped -> exists i, (i < m)%nat /\
@@ -1254,21 +1268,21 @@ Section Extreme.
       { intros i Hi. pose proof (combine3_in ops obs sels (context_to_exp l_new) (bounds_of (s_an s0) (Num NaN)) (Var ""%string) i) as H.
         rewrite Eo, Esel in H. unfold obs in H. rewrite !map_nth in H. unfold zipped. rewrite Eo, Esel. unfold obs. apply H; rewrite ?map_length; lia. }
       assert (Hlo_i : forall i, (i < m)%nat -> exists l, lo (bounds_of (s_an s0) (nth i exps (Num NaN))) = Fin l) by (intros i Hi; apply Hlo; apply nth_In; exact Hi).
-      assert (Hc_i : forall i, (i < m)%nat -> ctx_fin (nth i cs l_new) /\ incl (ckeys (nth i cs l_new)) (keys s2)).
+      assert (Hc_i : forall i, (i < m)%nat -> ctx_fin (nth i cs l_new) /\ incl (ckeys (nth i cs l_new)) (ukeys s2)).
       { intros i Hi. assert (Hc : In (nth i cs l_new) cs) by (apply nth_In; lia).
         split; [exact (proj1 (Forall_forall _ _) F2 _ Hc)|exact (proj2 (proj1 (Forall_forall _ _) K2 _ Hc))]. }
       set (rows := flat_map (fun t => [fmax t; gmax t]) zipped). set (sumc := mk_c (sum_exps sels) Eq (Num (Fin 1%Q))).
-      assert (Gr : Forall (cgood (keys s3)) rows).
+      assert (Gr : Forall (cgood (ukeys s3)) rows).
       { apply Forall_forall. intros c Hc. apply in_flat_map in Hc as [t [Ht Hc]]. destruct (Htup t Ht) as [i [Hi Et]].
         destruct (Hc_i i Hi) as [Fi Ki]. destruct (Hlo_i i Hi) as [li Eli].
-        assert (Hk : In (nth i ns ""%string) (keys s3)) by (rewrite K3; apply in_or_app; right; apply nth_In; lia).
-        assert (Kc : incl (ckeys (nth i cs l_new)) (keys s3)) by (intros k Hk'; rewrite K3; apply in_or_app; left; apply Ki; exact Hk').
+        assert (Hk : In (nth i ns ""%string) (ukeys s3)) by (rewrite K3; apply in_or_app; right; apply nth_In; lia).
+        assert (Kc : incl (ckeys (nth i cs l_new)) (ukeys s3)) by (intros k Hk'; rewrite K3; apply in_or_app; left; apply Ki; exact Hk').
         destruct Hc as [<-|[<-|[]]]; subst t; unfold fmax, gmax, cgood, mk_c, add_exp, mul_exp, sub_exp; cbn [fst snd c_assert c_lhs c_rhs].
         - cbn [plainA xvars]. rewrite (plainA_ctx _ Fi), xvars_ctx. repeat split; try reflexivity; [intros k [<-|[]]; exact Hv3|exact Kc].
         - rewrite Hhi, Eli. destruct (xq_sub_Fin U li) as [d [-> _]]. cbn [plainA xvars]. rewrite (plainA_ctx _ Fi), xvars_ctx.
           repeat split; try reflexivity; [intros k [<-|[]]; exact Hv3|].
           intros k Hk'. apply in_app_or in Hk' as [Hk'|Hk']; [apply Kc; exact Hk'|]. cbn in Hk'. destruct Hk' as [<-|[]]. exact Hk. }
-      assert (Gs : cgood (keys s3) sumc).
+      assert (Gs : cgood (ukeys s3) sumc).
       { unfold sumc. rewrite Esel. apply sum_vars_good; [intros E; rewrite E in Ln; cbn in Ln; lia|]. intros k Hk. rewrite K3. apply in_or_app. right. exact Hk. }
       set (s4 := addcs s3 rows). set (s5 := addc s4 sumc).
       assert (I5 : INV s5) by (apply INV_addc; [apply INV_addcs; assumption|unfold s4; rewrite keys_addcs; exact Gs]).
@@ -1321,25 +1335,25 @@ Section Extreme.
         destruct (st_sat_decl (set_cnt s0 cnt) var T rho Mx (INV_set_cnt _ _ I0) Mv Bm S) as [S1' A1]. fold s1 in S1'.
         set (sg1 := updR rho var Mx) in *.
         assert (El1 : evlist sg1 false exps = Some (v0 :: vs)).
-        { rewrite <- El. apply evlist_agree_ok; [exact Oe|]. intros k Hk. apply A1. apply Ix. exact Hk. }
+        { rewrite <- El. apply evlist_agree_ok; [exact Oe|]. intros k Hk. apply A1. apply ukeys_sub. apply Ix. exact Hk. }
         destruct (C2 sg1 _ S1' El1) as [sg2 [A2 [S2' V2]]]. pose proof (Forall2_len _ _ _ V2) as Lv.
         destruct (In_nth _ _ 0 (fold_max_in vs v0)) as [j [Hj Ej]]. fold Mx in Ej. rewrite <- Lv, Lc in Hj. fold m in Hj.
         set (kj := nth j ns ""%string). set (vals := fun k : string => if String.eqb k kj then 1 else 0).
         assert (Sat3 : st_sat s3 (updL sg2 ns vals)).
         { rewrite E3. apply decls_sat; [exact I2|exact NDn|exact Frn| |exact S2']. intros k _. unfold vals. destruct (String.eqb k kj); [right|left]; reflexivity. }
         set (sg3 := updL sg2 ns vals) in *.
-        assert (A3 : forall k, In k (keys s2) -> sg3 k = sg2 k) by (intros k Hk; apply updL_other; intros H; exact (Frn k H Hk)).
-        assert (Ev : sg3 var = Mx) by (rewrite A3 by exact Hv2; rewrite A2 by exact Hv1; apply updR_same).
+        assert (A3 : forall k, In k (akeys s2) -> sg3 k = sg2 k) by (intros k Hk; apply updL_other; intros H; exact (Frn k H Hk)).
+        assert (Ev : sg3 var = Mx) by (rewrite A3 by (apply ukeys_sub; exact Hv2); rewrite A2 by (apply ukeys_sub; exact Hv1); apply updR_same).
         assert (Hval : forall i, (i < m)%nat -> ev sg3 (context_to_exp (nth i cs l_new)) = Some (nth i (v0 :: vs) 0)).
         { intros i Hi. destruct (Hc_i i Hi) as [Fi Ki]. rewrite (context_to_exp_sound sg3 _ Fi). f_equal.
-          rewrite (ctx_val_agree sg3 sg2) by (intros k Hk; apply A3; apply Ki; exact Hk).
+          rewrite (ctx_val_agree sg3 sg2) by (intros k Hk; apply A3; apply ukeys_sub; apply Ki; exact Hk).
           apply (Forall2_nth _ cs (v0 :: vs) l_new 0 i V2). lia. }
         assert (Hvb : forall i, (i < m)%nat -> in_b (bounds_of (s_an s0) (nth i exps (Num NaN))) (nth i (v0 :: vs) 0)).
         { intros i Hi. destruct S as [_ [_ D]]. assert (He : In (nth i exps (Num NaN)) exps) by (apply nth_In; exact Hi).
           apply (bounds_of_on (s_an s0) rho); [exact (proj1 (forallb_forall _ _) Oe _ He)| |exact (evlist_nth rho exps _ i El Hi)].
           intros k Hk. apply (inv_box s0 I0 rho D). apply Ix. apply in_flat_map. eexists. split; [exact He|exact Hk]. }
-        exists sg3. split; [intros k Hk; rewrite A3 by (apply (grows_keys _ _ G12); apply (grows_keys _ _ G01); exact Hk);
-                            rewrite A2 by (apply (grows_keys _ _ G01); exact Hk); apply A1; exact Hk|].
+        exists sg3. split; [intros k Hk; rewrite A3 by (apply (grows_akeys _ _ G12); apply (grows_akeys _ _ G01); exact Hk);
+                            rewrite A2 by (apply (grows_akeys _ _ G01); exact Hk); apply A1; exact Hk|].
         split; [|rewrite (proj2 (from_var_one sg3 var)); exact Ev].
         apply st_sat_addc; [apply st_sat_addcs; [exact Sat3|]|].
         + intros c Hc. apply in_flat_map in Hc as [t [Ht Hc]]. destruct (Htup t Ht) as [i [Hi Et]]. subst t.
@@ -1367,7 +1381,7 @@ Section Extreme.
     Hypothesis Oe : forallb okexp exps = true.
     Hypothesis Ne : exps <> [].
     Hypothesis I0 : INV s0.
-    Hypothesis Ix : incl (flat_map xvars exps) (keys s0).
+    Hypothesis Ix : incl (flat_map xvars exps) (ukeys s0).
     Hypothesis Tt : Forall tot exps.
     Hypothesis Mv : al_mem (s_dom s0) var = false.
 
@@ -1376,7 +1390,7 @@ Section Extreme.
       intros [_ [_ D]] Hv. apply (bounds_of_on (s_an s0) rho (Min exps) v); [|intros k Hk; rewrite xvars_Min in Hk; apply (inv_box s0 I0 rho D); apply Ix; exact Hk|exact Hv].
       rewrite okexp_Min. destruct exps; [contradiction|exact Oe].
     Qed.
-    Lemma min_setup : INV s1 /\ grows s0 s1 /\ In var (keys s1) /\ incl (flat_map xvars exps) (keys s1).
+    Lemma min_setup : INV s1 /\ grows s0 s1 /\ In var (ukeys s1) /\ incl (flat_map xvars exps) (ukeys s1).
     Proof.
       assert (I1 : INV s1) by (apply INV_decl; [apply INV_set_cnt; exact I0|exact Mv]).
       assert (G : grows s0 s1) by (eapply grows_trans; [apply grows_set_cnt|apply grows_decl; exact Mv]).
@@ -1390,9 +1404,9 @@ Section Extreme.
     Proof.
       intros HM. destruct min_setup as [I1 [G01 [Hv1 Ix1]]].
       destruct (mapMM_ok PreferHigher exps s1 ops s2 Oe I1 Ix1 Tt HM) as [cs [Eo [_ [I2 [G12 [K2 [F2 [S2 C2]]]]]]]].
-      assert (Hv2 : In var (keys s2)) by (apply (grows_keys _ _ G12); exact Hv1).
+      assert (Hv2 : In var (ukeys s2)) by (apply (grows_keys _ _ G12); exact Hv1).
       set (rows := map (fun o => mk_c (Var var) Le o) ops). set (s3 := addcs s2 rows).
-      assert (Gr : Forall (cgood (keys s2)) rows) by (unfold rows; rewrite Eo; apply ops_cgood; assumption).
+      assert (Gr : Forall (cgood (ukeys s2)) rows) by (unfold rows; rewrite Eo; apply ops_cgood; assumption).
       assert (Hrow : forall c, In c cs -> In (mk_c (Var var) Le (context_to_exp c)) rows).
       { intros c Hc. unfold rows. rewrite Eo, map_map. apply in_map_iff. exists c. split; [reflexivity|exact Hc]. }
       split; [apply INV_addcs; assumption|]. split; [eapply grows_trans; [exact G01|eapply grows_trans; [exact G12|apply grows_addcs]]|].
@@ -1409,10 +1423,10 @@ Section Extreme.
         destruct (st_sat_decl (set_cnt s0 cnt) var T rho Mn (INV_set_cnt _ _ I0) Mv Bm S) as [S1' A1]. fold s1 in S1'.
         set (sg1 := updR rho var Mn) in *.
         assert (El1 : evlist sg1 false exps = Some (v0 :: vs)).
-        { rewrite <- El. apply evlist_agree_ok; [exact Oe|]. intros k Hk. apply A1. apply Ix. exact Hk. }
+        { rewrite <- El. apply evlist_agree_ok; [exact Oe|]. intros k Hk. apply A1. apply ukeys_sub. apply Ix. exact Hk. }
         destruct (C2 sg1 _ S1' El1) as [sg2 [A2 [S2' V2]]].
-        assert (Ev : sg2 var = Mn) by (rewrite A2 by exact Hv1; apply updR_same).
-        exists sg2. split; [intros k Hk; rewrite A2 by (apply (grows_keys _ _ G01); exact Hk); apply A1; exact Hk|].
+        assert (Ev : sg2 var = Mn) by (rewrite A2 by (apply ukeys_sub; exact Hv1); apply updR_same).
+        exists sg2. split; [intros k Hk; rewrite A2 by (apply (grows_akeys _ _ G01); exact Hk); apply A1; exact Hk|].
         split; [|rewrite (proj2 (from_var_one sg2 var)); exact Ev].
         apply st_sat_addcs; [exact S2'|]. intros c Hc. unfold rows in Hc. rewrite Eo, map_map in Hc. apply in_map_iff in Hc as [cx [<- Hcx]].
         destruct (Forall2_in_left _ _ _ _ V2 Hcx) as [w [Hw Ew]].
@@ -1448,10 +1462,10 @@ Section Extreme.
       assert (Lb : List.length obs = m) by (unfold obs; rewrite map_length; reflexivity).
       assert (Ls : List.length sels = m) by (rewrite Esel, map_length; exact Ln).
       assert (Mpos : (0 < m)%nat) by (unfold m; destruct exps; [contradiction|cbn; lia]).
-      assert (K3 : keys s3 = keys s2 ++ ns) by (rewrite E3; apply keys_decls).
-      assert (Hv2 : In var (keys s2)) by (apply (grows_keys _ _ G12); exact Hv1).
-      assert (Hv3 : In var (keys s3)) by (rewrite K3; apply in_or_app; left; exact Hv2).
-      assert (Nvar : ~ In var ns) by (intros H; exact (Frn var H Hv2)).
+      assert (K3 : ukeys s3 = ukeys s2 ++ ns) by (rewrite E3; apply keys_decls).
+      assert (Hv2 : In var (ukeys s2)) by (apply (grows_keys _ _ G12); exact Hv1).
+      assert (Hv3 : In var (ukeys s3)) by (rewrite K3; apply in_or_app; left; exact Hv2).
+      assert (Nvar : ~ In var ns) by (intros H; exact (Frn var H (ukeys_sub _ _ Hv2))).
       set (zipped := combine (combine ops obs) sels).
       (* what a tuple is *)
       assert (Htup : forall t, In t zipped -> exists i, (i < m)%nat /\
@@ -1463,21 +1477,21 @@ Section Extreme.
       { intros i Hi. pose proof (combine3_in ops obs sels (context_to_exp l_new) (bounds_of (s_an s0) (Num NaN)) (Var ""%string) i) as H.
         rewrite Eo, Esel in H. unfold obs in H. rewrite !map_nth in H. unfold zipped. rewrite Eo, Esel. unfold obs. apply H; rewrite ?map_length; lia. }
       assert (Hlo_i : forall i, (i < m)%nat -> exists l, hi (bounds_of (s_an s0) (nth i exps (Num NaN))) = Fin l) by (intros i Hi; apply Hlo; apply nth_In; exact Hi).
-      assert (Hc_i : forall i, (i < m)%nat -> ctx_fin (nth i cs l_new) /\ incl (ckeys (nth i cs l_new)) (keys s2)).
+      assert (Hc_i : forall i, (i < m)%nat -> ctx_fin (nth i cs l_new) /\ incl (ckeys (nth i cs l_new)) (ukeys s2)).
       { intros i Hi. assert (Hc : In (nth i cs l_new) cs) by (apply nth_In; lia).
         split; [exact (proj1 (Forall_forall _ _) F2 _ Hc)|exact (proj2 (proj1 (Forall_forall _ _) K2 _ Hc))]. }
       set (rows := flat_map (fun t => [fmin t; gmin t]) zipped). set (sumc := mk_c (sum_exps sels) Eq (Num (Fin 1%Q))).
-      assert (Gr : Forall (cgood (keys s3)) rows).
+      assert (Gr : Forall (cgood (ukeys s3)) rows).
       { apply Forall_forall. intros c Hc. apply in_flat_map in Hc as [t [Ht Hc]]. destruct (Htup t Ht) as [i [Hi Et]].
         destruct (Hc_i i Hi) as [Fi Ki]. destruct (Hlo_i i Hi) as [li Eli].
-        assert (Hk : In (nth i ns ""%string) (keys s3)) by (rewrite K3; apply in_or_app; right; apply nth_In; lia).
-        assert (Kc : incl (ckeys (nth i cs l_new)) (keys s3)) by (intros k Hk'; rewrite K3; apply in_or_app; left; apply Ki; exact Hk').
+        assert (Hk : In (nth i ns ""%string) (ukeys s3)) by (rewrite K3; apply in_or_app; right; apply nth_In; lia).
+        assert (Kc : incl (ckeys (nth i cs l_new)) (ukeys s3)) by (intros k Hk'; rewrite K3; apply in_or_app; left; apply Ki; exact Hk').
         destruct Hc as [<-|[<-|[]]]; subst t; unfold fmin, gmin, cgood, mk_c, add_exp, mul_exp, sub_exp; cbn [fst snd c_assert c_lhs c_rhs].
         - cbn [plainA xvars]. rewrite (plainA_ctx _ Fi), xvars_ctx. repeat split; try reflexivity; [intros k [<-|[]]; exact Hv3|exact Kc].
         - rewrite Eli, Hhi. destruct (xq_sub_Fin li U) as [d [-> _]]. cbn [plainA xvars]. rewrite (plainA_ctx _ Fi), xvars_ctx.
           repeat split; try reflexivity; [intros k [<-|[]]; exact Hv3|].
           intros k Hk'. apply in_app_or in Hk' as [Hk'|Hk']; [apply Kc; exact Hk'|]. cbn in Hk'. destruct Hk' as [<-|[]]. exact Hk. }
-      assert (Gs : cgood (keys s3) sumc).
+      assert (Gs : cgood (ukeys s3) sumc).
       { unfold sumc. rewrite Esel. apply sum_vars_good; [intros E; rewrite E in Ln; cbn in Ln; lia|]. intros k Hk. rewrite K3. apply in_or_app. right. exact Hk. }
       set (s4 := addcs s3 rows). set (s5 := addc s4 sumc).
       assert (I5 : INV s5) by (apply INV_addc; [apply INV_addcs; assumption|unfold s4; rewrite keys_addcs; exact Gs]).
@@ -1530,25 +1544,25 @@ Section Extreme.
         destruct (st_sat_decl (set_cnt s0 cnt) var T rho Mn (INV_set_cnt _ _ I0) Mv Bm S) as [S1' A1]. fold s1 in S1'.
         set (sg1 := updR rho var Mn) in *.
         assert (El1 : evlist sg1 false exps = Some (v0 :: vs)).
-        { rewrite <- El. apply evlist_agree_ok; [exact Oe|]. intros k Hk. apply A1. apply Ix. exact Hk. }
+        { rewrite <- El. apply evlist_agree_ok; [exact Oe|]. intros k Hk. apply A1. apply ukeys_sub. apply Ix. exact Hk. }
         destruct (C2 sg1 _ S1' El1) as [sg2 [A2 [S2' V2]]]. pose proof (Forall2_len _ _ _ V2) as Lv.
         destruct (In_nth _ _ 0 (fold_min_in vs v0)) as [j [Hj Ej]]. fold Mn in Ej. rewrite <- Lv, Lc in Hj. fold m in Hj.
         set (kj := nth j ns ""%string). set (vals := fun k : string => if String.eqb k kj then 1 else 0).
         assert (Sat3 : st_sat s3 (updL sg2 ns vals)).
         { rewrite E3. apply decls_sat; [exact I2|exact NDn|exact Frn| |exact S2']. intros k _. unfold vals. destruct (String.eqb k kj); [right|left]; reflexivity. }
         set (sg3 := updL sg2 ns vals) in *.
-        assert (A3 : forall k, In k (keys s2) -> sg3 k = sg2 k) by (intros k Hk; apply updL_other; intros H; exact (Frn k H Hk)).
-        assert (Ev : sg3 var = Mn) by (rewrite A3 by exact Hv2; rewrite A2 by exact Hv1; apply updR_same).
+        assert (A3 : forall k, In k (akeys s2) -> sg3 k = sg2 k) by (intros k Hk; apply updL_other; intros H; exact (Frn k H Hk)).
+        assert (Ev : sg3 var = Mn) by (rewrite A3 by (apply ukeys_sub; exact Hv2); rewrite A2 by (apply ukeys_sub; exact Hv1); apply updR_same).
         assert (Hval : forall i, (i < m)%nat -> ev sg3 (context_to_exp (nth i cs l_new)) = Some (nth i (v0 :: vs) 0)).
         { intros i Hi. destruct (Hc_i i Hi) as [Fi Ki]. rewrite (context_to_exp_sound sg3 _ Fi). f_equal.
-          rewrite (ctx_val_agree sg3 sg2) by (intros k Hk; apply A3; apply Ki; exact Hk).
+          rewrite (ctx_val_agree sg3 sg2) by (intros k Hk; apply A3; apply ukeys_sub; apply Ki; exact Hk).
           apply (Forall2_nth _ cs (v0 :: vs) l_new 0 i V2). lia. }
         assert (Hvb : forall i, (i < m)%nat -> in_b (bounds_of (s_an s0) (nth i exps (Num NaN))) (nth i (v0 :: vs) 0)).
         { intros i Hi. destruct S as [_ [_ D]]. assert (He : In (nth i exps (Num NaN)) exps) by (apply nth_In; exact Hi).
           apply (bounds_of_on (s_an s0) rho); [exact (proj1 (forallb_forall _ _) Oe _ He)| |exact (evlist_nth rho exps _ i El Hi)].
           intros k Hk. apply (inv_box s0 I0 rho D). apply Ix. apply in_flat_map. eexists. split; [exact He|exact Hk]. }
-        exists sg3. split; [intros k Hk; rewrite A3 by (apply (grows_keys _ _ G12); apply (grows_keys _ _ G01); exact Hk);
-                            rewrite A2 by (apply (grows_keys _ _ G01); exact Hk); apply A1; exact Hk|].
+        exists sg3. split; [intros k Hk; rewrite A3 by (apply (grows_akeys _ _ G12); apply (grows_akeys _ _ G01); exact Hk);
+                            rewrite A2 by (apply (grows_akeys _ _ G01); exact Hk); apply A1; exact Hk|].
         split; [|rewrite (proj2 (from_var_one sg3 var)); exact Ev].
         apply st_sat_addc; [apply st_sat_addcs; [exact Sat3|]|].
         + intros c Hc. apply in_flat_map in Hc as [t [Ht Hc]]. destruct (Htup t Ht) as [i [Hi Et]]. subst t.
@@ -1585,7 +1599,7 @@ Section Extreme.
   Qed.
 
   Lemma extreme_ok k l r s c s' : okexp (ext_exp k l) = true -> INV s ->
-    incl (xvars (ext_exp k l)) (keys s) -> tot (ext_exp k l) ->
+    incl (xvars (ext_exp k l)) (ukeys s) -> tot (ext_exp k l) ->
     linearize_extreme (lin n) k l r s = inr (c, s') -> lin_spec (ext_exp k l) r s c s'.
   Proof.
     intros Ok I Ix Tt H. destruct k; cbn [ext_exp] in *.
@@ -1604,7 +1618,7 @@ Section Extreme.
         assert (Hi : (i < List.length l0)%nat) by (apply Hlt; left; reflexivity).
         assert (Hin : In (nth i l0 (Num NaN)) l0) by (apply nth_In; exact Hi).
         pose proof (proj1 (forallb_forall _ _) Ok _ Hin) as Oi. pose proof (proj1 (Forall_forall _ _) Tl _ Hin) as Ti.
-        assert (Ixi : incl (xvars (nth i l0 (Num NaN))) (keys s)) by (intros k Hk; apply Ix; apply in_flat_map; eexists; split; [exact Hin|exact Hk]).
+        assert (Ixi : incl (xvars (nth i l0 (Num NaN))) (ukeys s)) by (intros k Hk; apply Ix; apply in_flat_map; eexists; split; [exact Hin|exact Hk]).
         pose proof (IHn _ _ _ _ _ Oi I Ixi Ti H) as Sp.
         apply (spec_un (Min l0) (nth i l0 (Num NaN)) r r (fun z => z) (fun z => z) s c s' Oi Ixi); [| | | |exact Sp].
         * intros sigma v S Hv. rewrite (Hval sigma S) in Hv. cbn [map] in Hv. destruct (ev_min_inv _ _ _ Hv) as [v0 [vs [El ->]]]. cbn [evlist] in El.
@@ -1620,7 +1634,7 @@ Section Extreme.
         assert (Sub : incl exps l0) by (apply sub_nth; exact Hlt).
         assert (Ne : exps <> []) by (unfold exps; intros E; apply map_eq_nil in E; contradiction).
         assert (Ok' : forallb okexp exps = true) by (apply forallb_forall; intros e He; exact (proj1 (forallb_forall _ _) Ok e (Sub e He))).
-        assert (Ix' : incl (flat_map xvars exps) (keys s)).
+        assert (Ix' : incl (flat_map xvars exps) (ukeys s)).
         { intros k Hk. apply in_flat_map in Hk as [e [He Hk]]. apply Ix. apply in_flat_map. exists e. split; [exact (Sub e He)|exact Hk]. }
         assert (Tl' : Forall tot exps) by (apply Forall_forall; intros e He; exact (proj1 (Forall_forall _ _) Tl e (Sub e He))).
         apply (lin_spec_equiv (Min l0) (Min exps) r s c s' Hval).
@@ -1683,7 +1697,7 @@ Section Extreme.
         assert (Hi : (i < List.length l0)%nat) by (apply Hlt; left; reflexivity).
         assert (Hin : In (nth i l0 (Num NaN)) l0) by (apply nth_In; exact Hi).
         pose proof (proj1 (forallb_forall _ _) Ok _ Hin) as Oi. pose proof (proj1 (Forall_forall _ _) Tl _ Hin) as Ti.
-        assert (Ixi : incl (xvars (nth i l0 (Num NaN))) (keys s)) by (intros k Hk; apply Ix; apply in_flat_map; eexists; split; [exact Hin|exact Hk]).
+        assert (Ixi : incl (xvars (nth i l0 (Num NaN))) (ukeys s)) by (intros k Hk; apply Ix; apply in_flat_map; eexists; split; [exact Hin|exact Hk]).
         pose proof (IHn _ _ _ _ _ Oi I Ixi Ti H) as Sp.
         apply (spec_un (Max l0) (nth i l0 (Num NaN)) r r (fun z => z) (fun z => z) s c s' Oi Ixi); [| | | |exact Sp].
         * intros sigma v S Hv. rewrite (Hval sigma S) in Hv. cbn [map] in Hv. destruct (ev_max_inv _ _ _ Hv) as [v0 [vs [El ->]]]. cbn [evlist] in El.
@@ -1699,7 +1713,7 @@ Section Extreme.
         assert (Sub : incl exps l0) by (apply sub_nth; exact Hlt).
         assert (Ne : exps <> []) by (unfold exps; intros E; apply map_eq_nil in E; contradiction).
         assert (Ok' : forallb okexp exps = true) by (apply forallb_forall; intros e He; exact (proj1 (forallb_forall _ _) Ok e (Sub e He))).
-        assert (Ix' : incl (flat_map xvars exps) (keys s)).
+        assert (Ix' : incl (flat_map xvars exps) (ukeys s)).
         { intros k Hk. apply in_flat_map in Hk as [e [He Hk]]. apply Ix. apply in_flat_map. exists e. split; [exact (Sub e He)|exact Hk]. }
         assert (Tl' : Forall tot exps) by (apply Forall_forall; intros e He; exact (proj1 (Forall_forall _ _) Tl e (Sub e He))).
         apply (lin_spec_equiv (Max l0) (Max exps) r s c s' Hval).
@@ -1750,7 +1764,7 @@ Section Extreme.
   Qed.
 End Extreme.
 
-Theorem lin_ok : forall n e r s c s', okexp e = true -> INV s -> incl (xvars e) (keys s) -> tot e ->
+Theorem lin_ok : forall n e r s c s', okexp e = true -> INV s -> incl (xvars e) (ukeys s) -> tot e ->
   lin n e r s = inr (c, s') -> lin_spec e r s c s'.
 Proof.
   induction n as [|n IH]; intros e r s c s' Ok I Ix Tt H; [discriminate|].
@@ -1820,8 +1834,8 @@ Proof.
     cbn [okexp] in Ok.
     assert (O12 : okexp e1 = true /\ okexp e2 = true) by (destruct op; try discriminate; apply andb_true_iff in Ok; exact Ok).
     destruct O12 as [O1 O2]. destruct (tot_binop _ _ _ Tt) as [T1 T2]. cbn [xvars] in Ix.
-    assert (Ix1 : incl (xvars e1) (keys s)) by (intros k Hk; apply Ix; apply in_or_app; left; exact Hk).
-    assert (Ix2 : incl (xvars e2) (keys s)) by (intros k Hk; apply Ix; apply in_or_app; right; exact Hk).
+    assert (Ix1 : incl (xvars e1) (ukeys s)) by (intros k Hk; apply Ix; apply in_or_app; left; exact Hk).
+    assert (Ix2 : incl (xvars e2) (ukeys s)) by (intros k Hk; apply Ix; apply in_or_app; right; exact Hk).
     destruct op; try discriminate.
     + (* Add *)
       unfold bind in H. destruct (lin n e1 r s) as [er|[la s1]] eqn:E1; [discriminate|].
@@ -1915,7 +1929,7 @@ Definition step_ok (c : constr) (s : lst) : bool :=
       match try_normalize_logic_constraint s l (c_cmp c) r with
       | Some _ => false
       | None => match fs_pure (BinOp Sub l r) with
-                | Some e => okexp e && forallb (set_mem (keys s)) (xvars e)
+                | Some e => okexp e && forallb (set_mem (ukeys s)) (xvars e)
                 | None => false
                 end
       end
@@ -1931,10 +1945,10 @@ Proof. destruct c; cbn; lra. Qed.
 
 Definition pushr (s : lst) (r : midrow) : lst := mkS (s_queue s) (s_rows s ++ [r]) (s_cnt s) (s_dom s) (s_an s).
 
-Lemma process_ok c s u s' : INV s -> cgood (keys s) c -> step_ok c s = true -> process_constraint c s = inr (u, s') ->
+Lemma process_ok c s u s' : INV s -> cgood (ukeys s) c -> step_ok c s = true -> process_constraint c s = inr (u, s') ->
   INV s' /\ ext s s' /\
   (forall sigma, st_sat s' sigma -> st_sat s sigma /\ sat_constr sigma c) /\
-  (forall rho, st_sat s rho -> sat_constr rho c -> exists sigma, (forall n, In n (keys s) -> sigma n = rho n) /\ st_sat s' sigma).
+  (forall rho, st_sat s rho -> sat_constr rho c -> exists sigma, (forall n, In n (akeys s) -> sigma n = rho n) /\ st_sat s' sigma).
 Proof.
   intros I [NA [Pl [Pr [Il Ir]]]] SO H. unfold step_ok in SO.
   destruct (fs_pure (c_lhs c)) as [l|] eqn:Fl; [|discriminate]. destruct (fs_pure (c_rhs c)) as [r|] eqn:Fr; [|discriminate].
@@ -2001,7 +2015,7 @@ Fixpoint trace_ok (fuel : nat) (s : lst) : bool :=
 Lemma main_loop_ok : forall fuel s u s2, INV s -> trace_ok fuel s = true -> main_loop fuel s = inr (u, s2) ->
   INV s2 /\ ext s s2 /\ s_queue s2 = [] /\
   (forall sigma, st_sat s2 sigma -> st_sat s sigma) /\
-  (forall rho, st_sat s rho -> exists sigma, (forall n, In n (keys s) -> sigma n = rho n) /\ st_sat s2 sigma).
+  (forall rho, st_sat s rho -> exists sigma, (forall n, In n (akeys s) -> sigma n = rho n) /\ st_sat s2 sigma).
 Proof.
   induction fuel as [|fuel IH]; intros s u s2 I T H; [discriminate|].
   cbn [main_loop] in H. cbn [trace_ok] in T. destruct (s_queue s) as [|c rest] eqn:Q.
@@ -2011,7 +2025,7 @@ Proof.
     destruct (process_constraint c (popq s rest)) as [er|[u1 s1]] eqn:P; [discriminate|].
     assert (Ip : INV (popq s rest)).
     { destruct I as [A B C D E]. constructor; try assumption. cbn [popq s_queue]. rewrite Q in C. inversion C; assumption. }
-    assert (Gc : cgood (keys (popq s rest)) c).
+    assert (Gc : cgood (ukeys (popq s rest)) c).
     { destruct I as [_ _ C _ _]. rewrite Q in C. inversion C; assumption. }
     destruct (process_ok c (popq s rest) u1 s1 Ip Gc SO P) as [I1 [E1 [S1 C1]]].
     destruct (IH s1 u s2 I1 T H) as [I2 [E2 [Q2 [S2 C2]]]].
@@ -2025,7 +2039,7 @@ Proof.
       assert (Hc : In c (s_queue s)) by (rewrite Q; left; reflexivity).
       destruct (C1 rho Sp (Qr c Hc)) as [sg1 [A1 S1']].
       destruct (C2 sg1 S1') as [sg2 [A2 S2']]. exists sg2. split; [|exact S2'].
-      intros n Hn. rewrite A2 by (apply (ext_keys _ _ E1); exact Hn). apply A1. exact Hn.
+      intros n Hn. rewrite A2 by (apply (ext_akeys _ _ E1); exact Hn). apply A1. exact Hn.
 Qed.
 
 (* ---------- the initial state: the synchronised box is implied by the emitted (tightened) domains *)
@@ -2100,39 +2114,83 @@ Definition lm_of_state (s2 : lst) (lobj : lctx) (dir : direction) : linmodel :=
     (map (fun r => mkLRow (r_name r) (extract_coeffs (r_lhs r) vars) (r_cmp r) (r_rhs r)) rows)
     (extract_coeffs (l_vars lobj) vars) (l_rhs lobj) dir.
 
-Lemma lm_of_state_sat s2 lobj dir sigma : INV s2 -> s_queue s2 = [] -> ctx_ok (keys s2) lobj ->
-  (sat_linear (lm_of_state s2 lobj dir) sigma <-> st_sat s2 sigma) /\
+(* what the linear model constrains: the used variables only *)
+Definition dom_satU (D : list (string * dvar)) (sigma : string -> R) : Prop :=
+  forall n d, In (n, d) D -> dv_used d = true -> in_dom (dv_type d) (sigma n).
+Definition st_satU (s : lst) (sigma : string -> R) : Prop :=
+  (forall c, In c (s_queue s) -> sat_constr sigma c) /\ (forall r, In r (s_rows s) -> mrow_holds sigma r) /\ dom_satU (s_dom s) sigma.
+Lemma st_sat_U s sigma : st_sat s sigma -> st_satU s sigma.
+Proof. intros [Q [Rw D]]. split; [exact Q|]. split; [exact Rw|]. intros n d Hin _. exact (D n d Hin). Qed.
+
+(* a declared-but-unused variable is dropped from the linear model: any value of its (non-empty) range serves *)
+Lemma fix_unused : forall D sigma, NoDup (map fst D) ->
+  (forall n d, In (n, d) D -> dv_used d = false -> exists x, in_dom (dv_type d) x) -> dom_satU D sigma ->
+  exists sigma', (forall n, ~ In n (map fst (filter (fun p : string * dvar => negb (dv_used (snd p))) D)) -> sigma' n = sigma n) /\ dom_sat D sigma'.
+Proof.
+  induction D as [|[k d] D IH]; intros sigma ND Hinh HU.
+  - exists sigma. split; [reflexivity|intros n d []].
+  - cbn [map fst] in ND. inversion ND as [|? ? Nk ND']; subst.
+    destruct (IH sigma ND' (fun n d0 H => Hinh n d0 (or_intror H)) (fun n d0 H => HU n d0 (or_intror H))) as [sg1 [A1 D1]].
+    cbn [filter snd]. destruct (dv_used d) eqn:Ud; cbn [negb].
+    + exists sg1. split; [exact A1|]. intros n d0 [E|Hin]; [|exact (D1 n d0 Hin)]. inversion E; subst n d0.
+      rewrite A1; [apply (HU k d (or_introl eq_refl) Ud)|]. intros Hk. apply Nk. apply in_map_iff in Hk as [p [<- Hp]]. apply filter_In in Hp as [Hp _]. apply in_map. exact Hp.
+    + destruct (Hinh k d (or_introl eq_refl) Ud) as [x Hx]. exists (updR sg1 k x). split.
+      * intros n Hn. cbn [map fst] in Hn. rewrite updR_other by (intros ->; apply Hn; left; reflexivity). apply A1. intros H. apply Hn. right. exact H.
+      * intros n d0 [E|Hin]; [inversion E; subst n d0; rewrite updR_same; exact Hx|].
+        rewrite updR_other; [exact (D1 n d0 Hin)|]. intros ->. apply Nk. apply in_map_iff. exists (k, d0). split; [reflexivity|exact Hin].
+Qed.
+Lemma used_not_unused s n : NoDup (akeys s) -> In n (ukeys s) ->
+  ~ In n (map fst (filter (fun p : string * dvar => negb (dv_used (snd p))) (s_dom s))).
+Proof.
+  intros ND Hu Hn. unfold ukeys in Hu. apply in_map_iff in Hu as [[n1 d1] [E1 H1]]. apply filter_In in H1 as [H1 U1].
+  apply in_map_iff in Hn as [[n2 d2] [E2 H2]]. apply filter_In in H2 as [H2 U2]. cbn [fst snd] in *. subst n1 n2.
+  rewrite (NoDup_keys_unique _ _ _ _ ND H1 H2) in U1. rewrite U1 in U2. discriminate.
+Qed.
+Lemma st_satU_fix s sigma : INV s -> st_satU s sigma -> exists sigma', (forall n, In n (ukeys s) -> sigma' n = sigma n) /\ st_sat s sigma'.
+Proof.
+  intros I [Q [Rw DU]]. destruct (fix_unused (s_dom s) sigma (inv_nd s I) (inv_inh s I) DU) as [sg [A D]].
+  assert (Au : forall n, In n (ukeys s) -> sigma n = sg n) by (intros n Hn; symmetry; apply A; apply used_not_unused; [exact (inv_nd s I)|exact Hn]).
+  exists sg. split; [intros n Hn; symmetry; apply Au; exact Hn|]. split; [|split; [|exact D]].
+  - intros c Hc. eapply sat_constr_agree; [exact (proj1 (Forall_forall _ _) (inv_q s I) c Hc)|exact Au|exact (Q c Hc)].
+  - intros r Hr. eapply mrow_agree; [exact (proj1 (Forall_forall _ _) (inv_r s I) r Hr)|exact Au|exact (Rw r Hr)].
+Qed.
+
+Lemma lm_of_state_sat s2 lobj dir sigma : INV s2 -> s_queue s2 = [] -> ctx_ok (ukeys s2) lobj ->
+  (sat_linear (lm_of_state s2 lobj dir) sigma <-> st_satU s2 sigma) /\
   lin_objective (lm_of_state s2 lobj dir) sigma = ctx_val sigma lobj.
 Proof.
-  intros [ND Hu _ Hr _] Q [NDo INo]. unfold lm_of_state. cbv zeta.
-  assert (Hfil : filter (fun p : string * dvar => dv_used (snd p)) (s_dom s2) = s_dom s2).
-  { apply filter_all. intros [n d] Hin. exact (Hu n d Hin). }
-  rewrite Hfil. fold (keys s2). set (vars := sort_strings (keys s2)).
-  assert (Pv : Permutation (keys s2) vars) by apply sort_strings_perm.
-  assert (NDv : NoDup vars) by (eapply Permutation_NoDup; [exact Pv|exact ND]).
-  assert (Kv : incl (keys s2) vars) by (intros k Hk; eapply Permutation_in; [exact Pv|exact Hk]).
-  assert (Hfd : filter (fun p : string * dvar => set_mem vars (fst p)) (s_dom s2) = s_dom s2).
-  { apply filter_all. intros [n d] Hin. cbn [fst]. apply set_mem_In. apply Kv. apply in_map_iff. exists (n, d). split; [reflexivity|exact Hin]. }
-  rewrite Hfd.
+  intros [ND _ _ Hr _] Q [NDo INo]. unfold lm_of_state. cbv zeta. fold (ukeys s2). set (vars := sort_strings (ukeys s2)).
+  assert (Pv : Permutation (ukeys s2) vars) by apply sort_strings_perm.
+  assert (NDu : NoDup (ukeys s2)) by (unfold ukeys; apply NoDup_map_filter; exact ND).
+  assert (NDv : NoDup vars) by (eapply Permutation_NoDup; [exact Pv|exact NDu]).
+  assert (Kv : incl (ukeys s2) vars) by (intros k Hk; eapply Permutation_in; [exact Pv|exact Hk]).
+  assert (vK : incl vars (ukeys s2)) by (intros k Hk; eapply Permutation_in; [apply Permutation_sym; exact Pv|exact Hk]).
+  assert (Hdomain : forall n d, In (n, d) (s_dom s2) -> (set_mem vars n = true <-> dv_used d = true)).
+  { intros n d Hin. rewrite set_mem_In. split.
+    - intros Hv. apply vK in Hv. unfold ukeys in Hv. apply in_map_iff in Hv as [[n1 d1] [E1 H1]]. apply filter_In in H1 as [H1 U1]. cbn [fst snd] in *. subst n1.
+      rewrite <- (NoDup_keys_unique _ _ _ _ ND H1 Hin). exact U1.
+    - intros U. apply Kv. unfold ukeys. apply in_map_iff. exists (n, d). split; [reflexivity|]. apply filter_In. split; [exact Hin|exact U]. }
   assert (Hsem : forall mr, In mr (s_rows s2) ->
             (cmp_holds (r_cmp mr) (dot (extract_coeffs (r_lhs mr) vars) vars sigma) (xval (r_rhs mr)) <-> mrow_holds sigma mr)).
   { intros mr Hmr. destruct (proj1 (Forall_forall _ _) Hr mr Hmr) as [NDk [INk _]].
     rewrite (dot_extract sigma _ vars NDk (fun k Hk => Kv k (INk k Hk)) NDv), xval_cval. reflexivity. }
   split.
-  - unfold sat_linear, st_sat. cbn [lm_rows lm_vars lm_domain]. rewrite Q. split.
+  - unfold sat_linear, st_satU. cbn [lm_rows lm_vars lm_domain]. rewrite Q. split.
     + intros [Hrows Hdom]. split; [intros c []|]. split.
       * intros mr Hmr. apply (Hsem mr Hmr).
         assert (Hc : In (core mr) (map core (dedup_names (s_rows s2)))) by (rewrite dedup_names_cores; apply in_map; exact Hmr).
         apply in_map_iff in Hc as [dr [Ec Hdr]]. unfold core in Ec. injection Ec as E1 E2 E3.
         pose proof (Hrows _ (in_map _ _ _ Hdr)) as Hh. unfold row_holds in Hh. cbn [lr_cmp lr_coeffs lr_rhs] in Hh.
         rewrite E1, E2, E3 in Hh. exact Hh.
-      * intros n d Hin. apply (Hdom n (dv_type d)). apply in_map_iff. exists (n, d). split; [reflexivity|exact Hin].
+      * intros n d Hin U. apply (Hdom n (dv_type d)). apply in_map_iff. exists (n, d). split; [reflexivity|].
+        apply filter_In. split; [exact Hin|]. cbn [fst]. apply (Hdomain n d Hin). exact U.
     + intros [_ [Hrows Hdom]]. split.
       * intros r Hr0. apply in_map_iff in Hr0 as [dr [<- Hdr]]. unfold row_holds. cbn [lr_cmp lr_coeffs lr_rhs].
         assert (Hc : In (core dr) (map core (s_rows s2))) by (rewrite <- dedup_names_cores; apply in_map; exact Hdr).
         apply in_map_iff in Hc as [mr [Ec Hmr]]. unfold core in Ec. injection Ec as E1 E2 E3.
         rewrite <- E1, <- E2, <- E3. apply (Hsem mr Hmr). exact (Hrows mr Hmr).
-      * intros n t Hin. apply in_map_iff in Hin as [[n0 d] [E Hin]]. cbn [fst snd] in E. inversion E; subst n0 t. exact (Hdom n d Hin).
+      * intros n t Hin. apply in_map_iff in Hin as [[n0 d] [E Hin]]. cbn [fst snd] in E. inversion E; subst n0 t.
+        apply filter_In in Hin as [Hin Hm]. cbn [fst] in Hm. apply (Hdom n d Hin). apply (Hdomain n d Hin). exact Hm.
   - unfold lin_objective. cbn [lm_objective lm_vars lm_offset].
     rewrite (dot_extract sigma _ vars NDo (fun k Hk => Kv k (INo k Hk)) NDv), xval_cval. reflexivity.
 Qed.
@@ -2169,34 +2227,44 @@ Definition compile_trace (m : model) : bool :=
   match fs_pure (m_obj m) with
   | None => false
   | Some o =>
-      okexp o && forallb (set_mem (keys (init_state m))) (xvars o) &&
+      okexp o && forallb (set_mem (ukeys (init_state m))) (xvars o) &&
       match linearize_exp o (req_of_dir (m_dir m)) (init_state m) with
       | inr (_, s1) => trace_ok (loop_fuel m) s1
       | inl _ => false
       end
   end.
 
+Definition unames (m : model) : list string := map fst (filter (fun p : string * dvar => dv_used (snd p)) (m_domain m)).
+Lemma unames_sub m : incl (unames m) (map fst (m_domain m)).
+Proof. intros k Hk. unfold unames in Hk. apply in_map_iff in Hk as [p [<- Hp]]. apply filter_In in Hp as [Hp _]. apply in_map. exact Hp. Qed.
+
 Record abs_model (m : model) : Prop := mkBM {
   bm_wf : wf_domain m;
-  bm_used : forall n d, In (n, d) (m_domain m) -> dv_used d = true;
   bm_decl : forall n d, In (n, d) (m_domain m) -> decl_ok (dv_type d);
-  bm_cs : Forall (cgood (map fst (m_domain m))) (m_constraints m);
+  (* a declared variable that occurs nowhere is dropped by the compiler; the source model is then feasible only if its range is not empty *)
+  bm_inh : forall n d, In (n, d) (m_domain m) -> dv_used d = false ->
+             exists x, in_dom (tighten_type (analyze (decl_types m) (m_constraints m)) n (dv_type d)) x;
+  bm_cs : Forall (cgood (unames m)) (m_constraints m);
   bm_obj : plainA (m_obj m) = true;
-  bm_obj_vars : incl (xvars (m_obj m)) (map fst (m_domain m));
+  bm_obj_vars : incl (xvars (m_obj m)) (unames m);
   bm_trace : compile_trace m = true }.
 
-Lemma keys_init m : keys (init_state m) = map fst (m_domain m).
-Proof. unfold keys, init_state, cdom. cbn [s_dom]. rewrite map_map. reflexivity. Qed.
+Lemma filter_map_comm {A B} (f : A -> B) (p : B -> bool) l : filter p (map f l) = map f (filter (fun x => p (f x)) l).
+Proof. induction l as [|x l IH]; [reflexivity|]. cbn [map filter]. destruct (p (f x)); cbn [map]; rewrite IH; reflexivity. Qed.
+Lemma keys_init m : ukeys (init_state m) = unames m.
+Proof. unfold ukeys, unames, init_state, cdom. cbn [s_dom]. rewrite filter_map_comm, map_map. reflexivity. Qed.
+Lemma akeys_init m : akeys (init_state m) = map fst (m_domain m).
+Proof. unfold LinFrame.keys, init_state, cdom. cbn [s_dom]. rewrite map_map. reflexivity. Qed.
 
 Lemma INV_init m : abs_model m -> INV (init_state m).
 Proof.
-  intros [[ND Hwf] Hused Hdecl Hcs _ _ _]. constructor.
-  - rewrite keys_init. exact ND.
-  - intros n d Hin. unfold init_state, cdom in Hin. cbn [s_dom] in Hin. apply in_map_iff in Hin as [[n0 d0] [E Hin]].
-    inversion E; subst. cbn [dv_used snd]. exact (Hused _ _ Hin).
+  intros [[ND Hwf] Hdecl Hinh Hcs _ _ _]. constructor.
+  - rewrite akeys_init. exact ND.
+  - intros n d Hin Hu. unfold init_state, cdom in Hin. cbn [s_dom] in Hin. apply in_map_iff in Hin as [[n0 d0] [E Hin]].
+    cbn [fst snd] in E. injection E as <- <-. cbn [dv_used dv_type] in *. exact (Hinh _ _ Hin Hu).
   - rewrite keys_init. exact Hcs.
   - constructor.
-  - intros sigma HD n Hn. rewrite keys_init in Hn. apply in_map_iff in Hn as [[n0 d0] [E Hin]]. cbn [fst] in E. subst n0.
+  - intros sigma HD n Hn. rewrite keys_init in Hn. apply unames_sub in Hn. apply in_map_iff in Hn as [[n0 d0] [E Hin]]. cbn [fst] in E. subst n0.
     set (an := analyze (decl_types m) (m_constraints m)).
     set (D := map (fun p : string * dvar => (fst p, dv_type (snd p))) (cdom m)).
     set (t := tighten_type an n (dv_type d0)).
@@ -2216,7 +2284,7 @@ Qed.
 
 Lemma init_sat m rho : abs_model m -> (sat_model m rho <-> st_sat (init_state m) rho).
 Proof.
-  intros [[ND Hwf] Hused Hdecl Hcs _ _ _]. unfold sat_model, feasible, st_sat, init_state. cbn [s_queue s_rows s_dom]. split.
+  intros [[ND Hwf] Hdecl _ Hcs _ _ _]. unfold sat_model, feasible, st_sat, init_state. cbn [s_queue s_rows s_dom]. split.
   - intros [Hd Hc]. split; [exact Hc|]. split; [intros r []|].
     intros n d Hin. unfold cdom in Hin. apply in_map_iff in Hin as [[n0 d0] [E Hin]]. cbn [fst snd] in E. injection E as <- <-. cbn [dv_type].
     apply tighten_type_sound.
@@ -2236,7 +2304,8 @@ Qed.
 
 Theorem compile_abs_equiv m L : abs_model m -> compile m = inr L ->
   (forall sigma, sat_linear L sigma ->
-     sat_model m sigma /\ forall v, ev sigma (m_obj m) = Some v -> rel (req_of_dir (m_dir m)) (lin_objective L sigma) v) /\
+     exists sigma', agree_on (unames m) sigma sigma' /\ sat_model m sigma' /\
+       forall v, ev sigma' (m_obj m) = Some v -> rel (req_of_dir (m_dir m)) (lin_objective L sigma) v) /\
   (forall rho v, sat_model m rho -> ev rho (m_obj m) = Some v ->
      exists sigma, agree_on (map fst (m_domain m)) rho sigma /\ sat_linear L sigma /\ lin_objective L sigma = v).
 Proof.
@@ -2254,46 +2323,52 @@ Proof.
   unfold linearize_exp in EL.
   destruct (lin_ok _ _ _ _ _ _ Oo I0 Vo To EL) as [I1 [G1 [K1 [F1 [S1 C1]]]]].
   destruct (main_loop_ok _ _ _ _ I1 Tl EM) as [I2 [E2 [Q2 [S2 C2]]]].
-  assert (K2 : ctx_ok (keys s2) lobj) by (eapply ctx_ok_mono; [apply ext_keys; exact E2|exact K1]).
+  assert (K2 : ctx_ok (ukeys s2) lobj) by (eapply ctx_ok_mono; [apply ext_keys; exact E2|exact K1]).
   split.
   - intros sigma SL. destruct (lm_of_state_sat s2 lobj (m_dir m) sigma I2 Q2 K2) as [Hs Ho].
-    apply Hs in SL. pose proof (S2 sigma SL) as Ss1. split; [apply Hinit; exact (st_sat_back _ _ _ G1 Ss1)|].
-    intros v Hv. rewrite Ho. apply S1; [exact Ss1|apply Vobj; exact Hv].
+    apply Hs in SL. destruct (st_satU_fix s2 sigma I2 SL) as [sg [Ag Ss2]].
+    pose proof (S2 sg Ss2) as Ss1. exists sg. split; [|split].
+    + intros n Hn. symmetry. apply Ag. apply (ext_keys _ _ E2). apply (grows_keys _ _ G1). rewrite keys_init. exact Hn.
+    + apply Hinit. exact (st_sat_back _ _ _ G1 Ss1).
+    + intros v Hv. rewrite Ho. rewrite <- (ctx_val_agree sg sigma lobj) by (intros n Hn; apply Ag; destruct K2 as [_ K2]; apply K2; exact Hn).
+      apply S1; [exact Ss1|apply Vobj; exact Hv].
   - intros rho v SM Hv. apply Hinit in SM. destruct (C1 rho v SM (Vobj rho v Hv)) as [sg1 [A1 [Ss1 V1]]].
     destruct (C2 sg1 Ss1) as [sg2 [A2 Ss2]]. exists sg2.
     destruct (lm_of_state_sat s2 lobj (m_dir m) sg2 I2 Q2 K2) as [Hs Ho].
-    split; [|split; [apply Hs; exact Ss2|]].
-    + intros n Hn. rewrite <- keys_init in Hn. rewrite A2 by (apply (grows_keys _ _ G1); exact Hn). symmetry. apply A1. exact Hn.
-    + rewrite Ho, <- V1. apply ctx_val_agree. intros n Hn. apply A2. destruct K1 as [_ K1]. apply K1. exact Hn.
+    split; [|split; [apply Hs; apply st_sat_U; exact Ss2|]].
+    + intros n Hn. rewrite <- akeys_init in Hn. rewrite A2 by (apply (grows_akeys _ _ G1); exact Hn). symmetry. apply A1. exact Hn.
+    + rewrite Ho, <- V1. apply ctx_val_agree. intros n Hn. apply A2. apply ukeys_sub. destruct K1 as [_ K1]. apply K1. exact Hn.
 Qed.
 
-(* the projection form of Props/C01.v *)
+(* the projection form of Props/C01.v: over the declared variables that are used *)
 Corollary compile_abs_projection m L : abs_model m -> compile m = inr L ->
   forall rho : string -> R,
-    (exists rho', agree_on (map fst (m_domain m)) rho rho' /\ sat_model m rho') <->
-    (exists sigma, agree_on (map fst (m_domain m)) rho sigma /\ sat_linear L sigma).
+    (exists rho', agree_on (unames m) rho rho' /\ sat_model m rho') <->
+    (exists sigma, agree_on (unames m) rho sigma /\ sat_linear L sigma).
 Proof.
   intros BM HC rho. destruct (compile_abs_equiv m L BM HC) as [A B]. split.
   - intros [rho' [Ag S]]. destruct (plainA_total rho' _ (bm_obj m BM)) as [v [_ Ev]].
     destruct (B rho' v S Ev) as [sigma [Ag2 [SL _]]]. exists sigma. split; [|exact SL].
+    intros n Hn. rewrite (Ag n Hn). apply Ag2. apply unames_sub. exact Hn.
+  - intros [sigma [Ag SL]]. destruct (A sigma SL) as [sg [Ag2 [SM _]]]. exists sg. split; [|exact SM].
     intros n Hn. rewrite (Ag n Hn). apply Ag2. exact Hn.
-  - intros [sigma [Ag SL]]. exists sigma. split; [exact Ag|exact (proj1 (A sigma SL))].
 Qed.
 
-(* optima: a point that is optimal for the compiled model is feasible and optimal for the source, with the same value *)
+(* optima: a point that is optimal for the compiled model is, on the used variables, a feasible and optimal point of the source with the same value *)
 Definition better (d : direction) (a b : R) : Prop :=
   match d with DMin => a <= b | DMax => a >= b | DSatisfy => True end.
 Corollary compile_abs_optimum m L sigma : abs_model m -> compile m = inr L ->
   sat_linear L sigma -> (forall tau, sat_linear L tau -> better (m_dir m) (lin_objective L sigma) (lin_objective L tau)) ->
   m_dir m <> DSatisfy ->
-  sat_model m sigma /\ ev sigma (m_obj m) = Some (lin_objective L sigma) /\
-  forall rho v, sat_model m rho -> ev rho (m_obj m) = Some v -> better (m_dir m) (lin_objective L sigma) v.
+  exists sigma', agree_on (unames m) sigma sigma' /\
+    sat_model m sigma' /\ ev sigma' (m_obj m) = Some (lin_objective L sigma) /\
+    forall rho v, sat_model m rho -> ev rho (m_obj m) = Some v -> better (m_dir m) (lin_objective L sigma) v.
 Proof.
   intros BM HC SL Opt ND. destruct (compile_abs_equiv m L BM HC) as [A B].
-  destruct (A sigma SL) as [SM Hrel]. destruct (plainA_total sigma _ (bm_obj m BM)) as [v [_ Ev]].
-  pose proof (Hrel v Ev) as R1. destruct (B sigma v SM Ev) as [tau [_ [SLt Vt]]]. pose proof (Opt tau SLt) as R2. rewrite Vt in R2.
+  destruct (A sigma SL) as [sg [Ag [SM Hrel]]]. destruct (plainA_total sg _ (bm_obj m BM)) as [v [_ Ev]].
+  pose proof (Hrel v Ev) as R1. destruct (B sg v SM Ev) as [tau [_ [SLt Vt]]]. pose proof (Opt tau SLt) as R2. rewrite Vt in R2.
   assert (E : lin_objective L sigma = v) by (destruct (m_dir m); cbn in R1, R2; try lra; contradiction).
-  split; [exact SM|]. split; [rewrite E; exact Ev|].
+  exists sg. split; [exact Ag|]. split; [exact SM|]. split; [rewrite E; exact Ev|].
   intros rho w SMr Ew. destruct (B rho w SMr Ew) as [tau' [_ [SLt' Vt']]]. rewrite <- Vt'. apply Opt. exact SLt'.
 Qed.
 
@@ -2305,18 +2380,17 @@ Corollary compile_abs_objective m L : abs_model m -> compile m = inr L ->
     (exists sigma, agree_on (map fst (m_domain m)) rho sigma /\ sat_linear L sigma /\ lin_objective L sigma = v).
 Proof.
   intros BM HC rho v SM Ev. destruct (compile_abs_equiv m L BM HC) as [A B]. split; [|exact (B rho v SM Ev)].
-  intros sigma Ag SL. destruct (A sigma SL) as [_ Hrel].
-  assert (Es : ev sigma (m_obj m) = Some v).
-  { rewrite <- Ev. symmetry. apply ev_agree; [apply plainA_okexp; exact (bm_obj m BM)|]. intros n Hn. apply Ag. apply (bm_obj_vars m BM). exact Hn. }
+  intros sigma Ag SL. destruct (A sigma SL) as [sg [Ag2 [_ Hrel]]].
+  assert (Es : ev sg (m_obj m) = Some v).
+  { rewrite <- Ev. symmetry. apply ev_agree; [apply plainA_okexp; exact (bm_obj m BM)|]. intros n Hn. apply (bm_obj_vars m BM) in Hn.
+    rewrite (Ag n (unames_sub m n Hn)). apply Ag2. exact Hn. }
   pose proof (Hrel v Es) as R1. destruct (m_dir m); cbn in *; try lra; exact I.
 Qed.
-Lemma declared_used_all m : abs_model m -> map fst (filter (fun p : string * dvar => dv_used (snd p)) (m_domain m)) = map fst (m_domain m).
-Proof. intros BM. f_equal. apply filter_all. intros [n d] Hin. exact (bm_used m BM n d Hin). Qed.
 Corollary compile_abs_projection_used m L : abs_model m -> compile m = inr L ->
   forall rho : string -> R,
     (exists rho', agree_on (map fst (filter (fun p : string * dvar => dv_used (snd p)) (m_domain m))) rho rho' /\ sat_model m rho') <->
     (exists sigma, agree_on (map fst (filter (fun p : string * dvar => dv_used (snd p)) (m_domain m))) rho sigma /\ sat_linear L sigma).
-Proof. intros BM HC. rewrite (declared_used_all m BM). exact (compile_abs_projection m L BM HC). Qed.
+Proof. exact (compile_abs_projection m L). Qed.
 
 (* ---------- a boolean decision of the premises (evaluated on every tied model) *)
 Definition cgoodb (K : list string) (c : constr) : bool :=
@@ -2328,10 +2402,47 @@ Proof.
   apply andb_true_iff in H as [H H3]. apply andb_true_iff in H as [H1 H2]. apply negb_true_iff in H1.
   repeat split; try assumption; apply forallb_mem_incl; assumption.
 Qed.
+(* a rational member of a range *)
+Definition xq_le_Qb (a : xq) (q : Q) : bool := match a with Fin p => q_leb p q | NInf => true | _ => false end.
+Definition Q_le_xqb (q : Q) (b : xq) : bool := match b with Fin p => q_leb q p | PInf => true | _ => false end.
+Definition in_domQb (t : vtype) (q : Q) : bool :=
+  match t with
+  | TBoolean => q_eqb q 0 || q_eqb q 1
+  | TIntegerRange l u => q_eqb q (inject_Z (Qfloor q)) && Z.leb l (Qfloor q) && Z.leb (Qfloor q) u
+  | TNonNegativeReal l u => q_leb 0 q && xq_le_Qb l q && Q_le_xqb q u
+  | TReal l u => xq_le_Qb l q && Q_le_xqb q u
+  end.
+Lemma xq_le_Qb_sound a q : xq_le_Qb a q = true -> xq_le_R a (Q2R q).
+Proof. destruct a; cbn; intros H; try discriminate; [apply q_leb_true; exact H|exact I]. Qed.
+Lemma Q_le_xqb_sound q b : Q_le_xqb q b = true -> R_le_xq (Q2R q) b.
+Proof. destruct b; cbn; intros H; try discriminate; [apply q_leb_true; exact H|exact I]. Qed.
+Lemma in_domQb_sound t q : in_domQb t q = true -> in_dom t (Q2R q).
+Proof.
+  destruct t as [|l u|l u|l u]; cbn [in_domQb in_dom]; intros H.
+  - apply orb_true_iff in H as [H|H]; apply q_eqb_true in H; [left; rewrite H; apply Q2R_0|right; rewrite H; apply Q2R_1].
+  - apply andb_true_iff in H as [H H3]. apply andb_true_iff in H as [H1 H2]. apply q_eqb_true in H1. apply Z.leb_le in H2, H3.
+    exists (Qfloor q). split; [rewrite H1; apply Q2R_inject_Z|lia].
+  - apply andb_true_iff in H as [H H3]. apply andb_true_iff in H as [H1 H2]. apply q_leb_true in H1. rewrite Q2R_0 in H1.
+    split; [exact H1|]. split; [apply xq_le_Qb_sound; exact H2|apply Q_le_xqb_sound; exact H3].
+  - apply andb_true_iff in H as [H1 H2]. split; [apply xq_le_Qb_sound; exact H1|apply Q_le_xqb_sound; exact H2].
+Qed.
+Definition pick (t : vtype) : Q :=
+  match t with
+  | TBoolean => 0%Q
+  | TIntegerRange l _ => inject_Z l
+  | TNonNegativeReal l _ => match l with Fin p => if q_leb 0 p then p else 0%Q | _ => 0%Q end
+  | TReal l u => match l with Fin p => p | _ => match u with Fin p => p | _ => 0%Q end end
+  end.
+Definition inhabb (t : vtype) : bool := in_domQb t (pick t).
+Lemma inhabb_sound t : inhabb t = true -> exists x, in_dom t x.
+Proof. intros H. exists (Q2R (pick t)). apply in_domQb_sound. exact H. Qed.
+
 Definition abs_modelb (m : model) : bool :=
-  let U := map fst (m_domain m) in
-  nodup_names U
-  && forallb (fun p : string * dvar => wf_vtypeb (dv_type (snd p)) && dv_used (snd p) && decl_okb (dv_type (snd p))) (m_domain m)
+  let U := unames m in
+  let an := analyze (decl_types m) (m_constraints m) in
+  nodup_names (map fst (m_domain m))
+  && forallb (fun p : string * dvar => wf_vtypeb (dv_type (snd p)) && decl_okb (dv_type (snd p))
+                && (dv_used (snd p) || inhabb (tighten_type an (fst p) (dv_type (snd p))))) (m_domain m)
   && forallb (cgoodb U) (m_constraints m)
   && plainA (m_obj m)
   && forallb (set_mem U) (xvars (m_obj m))
@@ -2342,15 +2453,16 @@ Proof.
   apply andb_true_iff in H as [H Ht]. apply andb_true_iff in H as [H Hov]. apply andb_true_iff in H as [H Hpo]. apply andb_true_iff in H as [H Hc].
   apply andb_true_iff in H as [Hnd Hd].
   assert (Hd' : forall n d, In (n, d) (m_domain m) ->
-            wf_vtypeb (dv_type d) = true /\ dv_used d = true /\ decl_okb (dv_type d) = true).
+            wf_vtypeb (dv_type d) = true /\ decl_okb (dv_type d) = true /\
+            (dv_used d || inhabb (tighten_type (analyze (decl_types m) (m_constraints m)) n (dv_type d))) = true).
   { intros n d Hin. pose proof (proj1 (forallb_forall _ _) Hd (n, d) Hin) as K. cbn [fst snd] in K.
     apply andb_true_iff in K as [K K3]. apply andb_true_iff in K as [K1 K2]. auto. }
   constructor.
   - split; [apply nodup_names_sound; exact Hnd|]. intros n d Hin. destruct (Hd' n d Hin) as [W _].
     unfold PublishSound.wf_vtype. destruct (dv_type d); try exact I. cbn [wf_vtypeb] in W. apply andb_true_iff in W as [W1 W2].
     apply Z.leb_le in W1. apply Z.leb_le in W2. split; assumption.
-  - intros n d Hin. exact (proj1 (proj2 (Hd' n d Hin))).
-  - intros n d Hin. destruct (Hd' n d Hin) as [_ [_ T]]. exact (decl_okb_sound _ T).
+  - intros n d Hin. destruct (Hd' n d Hin) as [_ [T _]]. exact (decl_okb_sound _ T).
+  - intros n d Hin Hu. destruct (Hd' n d Hin) as [_ [_ T]]. rewrite Hu in T. cbn [orb] in T. exact (inhabb_sound _ T).
   - apply Forall_forall. intros c Hin. apply cgoodb_sound. exact (proj1 (forallb_forall _ _) Hc c Hin).
   - exact Hpo.
   - apply forallb_mem_incl. exact Hov.
@@ -2396,3 +2508,11 @@ Proof. vm_compute. reflexivity. Qed.
 Example m2_compiles : exists L, compile m2 = inr L /\ (List.length (lm_vars L) > 6)%nat.
 Proof. eexists. split; [vm_compute; reflexivity|]. cbn. lia. Qed.
 Print Assumptions compile_abs_equiv.
+
+(* a declared variable that occurs nowhere (w) is dropped by the compiler and does not stand in the way *)
+Definition m4 : model :=
+  mkModel DMin (BinOp Add (Abs (Var "x")) (Var "y"))
+    [mkConstr "" (Max [Var "x"; Var "y"]) Ge (Num (Fin 1%Q)) false]
+    [("x", mkDV (TReal (Fin (-4)%Q) (Fin 6%Q)) true); ("w", mkDV (TIntegerRange 2 9) false); ("y", mkDV (TReal (Fin (-3)%Q) (Fin 5%Q)) true)].
+Example m4_in_fragment : abs_modelb m4 = true.
+Proof. vm_compute. reflexivity. Qed.
